@@ -12,960 +12,2143 @@ Definition show_fres (r : fres) : string :=
   end.
 Definition check (rs : list rune) : string := digest (show_fres (format_res rs)).
 Definition full (rs : list rune) : string := show_fres (format_res rs).
-Eval vm_compute in ("<<<M28>>>" ++ check (runes_of_ascii "packet
-tag { repeat
-    //
-    T MetaDataX
-    , @calculatedFrom(
-//
-/// triple
-""`tick`""  ) @tag( 007 ) leftPad `tab	here` , @tag( 0123456789  )
-char x , @tag(0 ) u64 tag
-    ,
-i8 roots
-    // a // b
-    ,
-    @lengthOf(
-float ) @tag( 10 )
-// c
-// `tick` ""quote"" 'q'
-body { chars
-{repeat int8  body , }  , repeat Header {char[]
-    leftPad	, },	match  Logon as zchar  { 4294967296 :
-    len , ""a\""b"":A //
-00
-: x_y_z,
-} , repeat i16	options1
-, }
-    , @calculatedFrom( """ ++ [128512]%N ++ runes_of_ascii """)@rightPad ( '0'
-) i16 Pad , //
-int64
-    As @lengthOf(
-crc ) , } MetaData x_y_z {u crc
-, } root packet
-Z9_{ @calculatedFrom( ""{,}"" ) tag, @lengthOf( lengthOf ) zchar[  42 ] crc //x
-`" ++ [233]%N ++ runes_of_ascii "`
-// a // b
-// @lengthOf(
-, char[ 007 ] options1 ,
-}packet
-    // `tick` ""quote"" 'q'
-    x {char	trueish
-    ,	char[] packetx @calculatedFrom(""" ++ [28040; 24687]%N ++ runes_of_ascii """)
-    `line1
-line2` ,  zchar[
-1
-    ]
-    Foo // " ++ [128512]%N ++ runes_of_ascii " emoji
-, zchar[ 00 ]
-A , match msg_type as tag { """" : leftPad , [ """ ++ [128512]%N ++ runes_of_ascii """ ,
-    0 ,10
-    ,  3//	t
-] :
-Z9_,  ""it's"":	float , 10 : calculatedFrom ""x y"" // @lengthOf(
-:
-    f32a
-    007	: roots
-    , } // `tick` ""quote"" 'q'
-,} packet
-    u{ // trailing space 
-@calculatedFrom( ""\n"" ) @calculatedFrom( ""a\""b"" )	i64_
-rootA , match // @lengthOf(
-x as Logon {
-    1
-:
-    body,
-""a\\"" /// triple
-: _x ""packet"" : BodyLength,
-},
-    //x
-    @rightPad ( '\x00'//x
-) @calculatedFrom( """ ++ [128512]%N ++ runes_of_ascii """ )	repeat stringy { match
-//x
-// packet A { u8 x, }
-T as float { ""a\\"" : len
-    0:
-BodyLength , [ ""it's""
-, ""{,}"" , 255 // a // b
-, 0123456789, ""a\\"" ] :
-    Logon, 3:rootA
-    // " ++ [27880; 37322]%N ++ runes_of_ascii "
-    ,
-    }
-//
-// packet A { u8 x, }
-,
-} ,//
-u16 uint8x `{ , }`,
-// trailing space 
-//x
-@leftPad
-    // a // b
-    (
-'0' )  string i64_@lengthOf(  stringy  ),
-// `tick` ""quote"" 'q'
-// @lengthOf(
-u64 leftPad@calculatedFrom( // " ++ [27880; 37322]%N ++ runes_of_ascii "
-""a	b"" ) , repeat // @lengthOf(
-Header MetaDataX `a\`
-, @lengthOf(stringy
-    )	Packet
-leftPad , @tag( 00 ) repeat zchar _x `tab	here` , i32	matchKey , }
-")).
-Eval vm_compute in ("<<<M374>>>" ++ check (runes_of_ascii "packet BodyLength// packet A { u8 x, }
-{ leftPad lengthOf ,	float rootA `it's`	, @leftPad (
-    '0' ) repeat
-    BodyLength ,@rightPad
-(
-    ) i16// a // b
-falsey @lengthOf(// a // b
-i64_ ) , // `tick` ""quote"" 'q'
-repeat
-char[ 0123456789 ]uint8x , repeat
-    // " ++ [27880; 37322]%N ++ runes_of_ascii "
-    f64 i64_,	a1 tag`" ++ [233]%N ++ runes_of_ascii "` ,char[ 10 ]packetx
-`say ""hi""`
-,
-    repeat  tag metadata
-`tab	here` , }
-    /// triple
-    options {
-crc = """"
-    ;
-}
-    packet int
-{ repeat zchar[	255
-    ]	i64_ `two words`//x
-,
-    string tag@lengthOf( // a // b
-Header )
-,char chars ,
-@lengthOf(
-    crc ) match asx as Foo{ 7  : BodyLength , ""packet"" : Z9_
-,007 :
-    matchKey ,} ,
-uint16 metadata// a // b
-,
-i64_ {	repeat
-u8
-msg_type, stringy {char[ 0123456789 ] // c
-o @calculatedFrom(
-""\n"" ) `" ++ [233]%N ++ runes_of_ascii "` ,}
-/// triple
-// packet A { u8 x, }
-, zchar[
-00]
-    stringy	`line1
-line2`
-, } ,
-@leftPad//
-('0') match uint8x as u128 {
-[ 1 // a // b
-, ""abc"" ]
-    : _x  ""a	b"" :Packet
-    // c
-    3 : _x //	t
-, ""`tick`"" :
-packetx ,
-""\n""
-: Header ,  } ,
-x
-    // c
-    @calculatedFrom(
-    /// triple
-    ""\n"" ) ,zchar[ 65535 ]
-    Packet//x
-,
-} MetaData Logon{
-    } packet packetx {
-@calculatedFrom( ""a\\"" )
-match roots as Foo { [""\n"", 4294967296 ] : asx ,00
-:  o , ""{,}"" :Header ,255 : packetx , [255,4294967296	] :MetaDataX
-    ,  } , }")).
-Eval vm_compute in ("<<<M278>>>" ++ check (runes_of_ascii "MetaData f32a { uint8
-/// triple
-//x
-x ,
-f64 As
-`" ++ [233]%N ++ runes_of_ascii "`
-    // packet A { u8 x, }
-    , i64 f32a `u8 x,`  , uint32 // " ++ [128512]%N ++ runes_of_ascii " emoji
-string_ `crlf
-line` , char[ 10] pack
-    `a\` /// triple
-,Packet lengthOf	,}
-    root
-packet
-    MetaDataX { i32	u8x`tab	here` ,
-char[] stringy @lengthOf( repeatCount
-    ) `crlf
-line` , @rightPad ( )@lengthOf( Foo  ) char[
-65535	] body  , repeat pack{
-rootA `it's`
-    , match msg_type as  x_y_z {
-1:
-i64_ , 0123456789
-:Logon
-    , [ ""CRC32""]
-:
-A 1
-: _x , // a // b
-[ 42
-    // a // b
-    ] //
-:// @lengthOf(
-repeatCount , ""a	b""
-: pack
-    ,
-},
-char[
-    4294967296]lengthOf @lengthOf( options1//x
-), } , @tag( 4294967296 ) // " ++ [128512]%N ++ runes_of_ascii " emoji
-@calculatedFrom( //x
-""" ++ [128512]%N ++ runes_of_ascii """ )
-// " ++ [128512]%N ++ runes_of_ascii " emoji
-// " ++ [27880; 37322]%N ++ runes_of_ascii "
-repeat string	u, @lengthOf( // @lengthOf(
-f32a	) @tag(
-    007 ) @tag(
-7  ) msg_type Pad  , }
-    MetaData roots
-    { u64 MetaDataX
-,}
-packet // " ++ [27880; 37322]%N ++ runes_of_ascii "
-roots
-{
-@tag(
-    255 )
-    char[
-0123456789
-]  Logon`" ++ [28040; 24687; 31867; 22411]%N ++ runes_of_ascii "`
-    ,
-    body // packet A { u8 x, }
-@lengthOf( // a // b
-u8x) `two words`
-// " ++ [27880; 37322]%N ++ runes_of_ascii "
-/// triple
-, @lengthOf( Z9_
-)
-    packetx @calculatedFrom( """ ++ [28040; 24687]%N ++ runes_of_ascii """ )// " ++ [27880; 37322]%N ++ runes_of_ascii "
-,
-    }
-")).
-Eval vm_compute in ("<<<M131>>>" ++ check (runes_of_ascii "packet u128 {@lengthOf( x_y_z )	@lengthOf( stringy )
-@lengthOf( _x) zchar[
-// c
-// c
-4294967296 ] asx @calculatedFrom(
-    ""\" ++ [233]%N ++ runes_of_ascii """	)
-    `
-` ,char[0 ] matchKey
-, rootA
-    u128
-    ,
-    metadata metadata ,	zchar[	3 ]
-    string_ `" ++ [233]%N ++ runes_of_ascii "`
-,
-// `tick` ""quote"" 'q'
-// " ++ [27880; 37322]%N ++ runes_of_ascii "
-@calculatedFrom(""a	b""
-)
-char roots `" ++ [28040; 24687; 31867; 22411]%N ++ runes_of_ascii "` , repeat zchar[10]
-pack
-    `
-`, @calculatedFrom( ""{,}"" )
-@lengthOf( //	t
-Foo )  packetx {// " ++ [128512]%N ++ runes_of_ascii " emoji
-match i8i8 as Header
-{ 255	: Z9_  """ ++ [233]%N ++ runes_of_ascii "t" ++ [233]%N ++ runes_of_ascii """ :tag
-, [ 7,	1, ""// no comment"", ""// no comment"" , 3
-,
-    """" , // `tick` ""quote"" 'q'
-1 ] :lengthOf 3 :  asx , [ 42	,
-0 , 1 ] :Z9_ , 10 :
-    A}, } , }root packet T {/// triple
-int32 roots `two words`, stringy, @rightPad ( '\x00')float64 len	@lengthOf( o )
-    ,match body // `tick` ""quote"" 'q'
-as	uint8x { 10
-    :
-tag , }
-    ,
-    repeat u8
-    Pad
-    `" ++ [28040; 24687; 31867; 22411]%N ++ runes_of_ascii "`
-    , repeat char[]
-    float // c
-, @calculatedFrom(	""packet"" ) u16 x
-    @lengthOf(
-u8x)
-// c
-// a // b
-, } //x")).
-Eval vm_compute in ("<<<M10>>>" ++ check (runes_of_ascii "
-options{
-crc
-// " ++ [128512]%N ++ runes_of_ascii " emoji
-// trailing space 
-= uint8} packet len {uint8x @calculatedFrom( ""x y"" ), @lengthOf(
-    rootA  )
-    @lengthOf( body
-// `tick` ""quote"" 'q'
-// `tick` ""quote"" 'q'
-)@calculatedFrom(  ""x y""
-) Packet  @calculatedFrom(// `tick` ""quote"" 'q'
-""\n"" )
-`
-`
-, Packet ,  repeat
-    // trailing space 
-    i8	Z9_ , @tag(255 )
-falsey `
-` ,	i64 int `line1
-line2` ,@calculatedFrom(
-    ""\n""
-// packet A { u8 x, }
-/// triple
-) @leftPad()
-@calculatedFrom(//	t
-""abc"" )// packet A { u8 x, }
-BodyLength ,uint8 u , @calculatedFrom(
-    ""a\""b""
-) @lengthOf( metadata ) @rightPad (' ') // packet A { u8 x, }
-char[10] f32a , }  packet repeatCount { }options  {
-string_ =  i32 ;
-o =	""a	b"" ;
-    i8i8	=
-    ""a\""b"" ; uint8x =
-uint16
-    // " ++ [128512]%N ++ runes_of_ascii " emoji
-    ;
-}")).
-Eval vm_compute in ("<<<M164>>>" ++ check (runes_of_ascii "MetaData
-Packet {
-    float	Pad ,u32 // " ++ [128512]%N ++ runes_of_ascii " emoji
-Foo `it's`
-    ,uint16 stringy
-    , } packet
-    stringy // @lengthOf(
-{ @lengthOf(
-    chars
-) repeat f32 pack ,  @lengthOf(
-rootA
-)
-    // @lengthOf(
-    @calculatedFrom( ""CRC32""  ) char[] MetaDataX
-    // a // b
-    `" ++ [28040; 24687; 31867; 22411]%N ++ runes_of_ascii "` , @tag( 4294967296
-    ) len	@calculatedFrom(""a	b"")
-,
-} packet
-stringy { f32 leftPad/// triple
-,
-stringy { int	@calculatedFrom(""1"" ) `" ++ [233]%N ++ runes_of_ascii "`,	char[] o, zchar[ 0123456789  ]
-    matchKey @lengthOf(	lengthOf )
-`two words`
-, }
-,
-@leftPad ('\x00'
-) @lengthOf(
-// " ++ [128512]%N ++ runes_of_ascii " emoji
-/// triple
-falsey) repeat string falsey
-    `// not a comment` // trailing space 
-, //	t
-string Pad
-    , }
-
-")).
-Eval vm_compute in ("<<<M1489>>>" ++ check (runes_of_ascii "// top
-packet // c0a
-  // c0b
-A // c1a
-  // c1b
-{ // c2
-u8 a // c4a
-  // c4b
-, // c5a
-  // c5b
-} packet
-    // c7
-B // c8a
-  // c8b
-{ // c9a
-  // c9b
-u16 // c10a
-  // c10b
-b
-    // c11
-,
-    // c12
-} // c13
-root // c14
-packet // c15a
-  // c15b
-P { // c17
-u8 // c18a
-  // c18b
-K1 , // c20a
-  // c20b
-u8 // c21
-K2 , // c23
-match K1
-    // c25
-as M1 // c27
-{ // c28a
-  // c28b
-1 // c29a
-  // c29b
-:
-    // c30
-A // c31a
-  // c31b
-, // c32a
-  // c32b
-} , match // c35
-K2 as
-    // c37
-M2
-    // c38
-{ 1 // c40a
-  // c40b
-:
-    // c41
-B , } // c44
-,
-    // c45
-}
-    // c46
-")).
-Eval vm_compute in ("<<<M1825>>>" ++ check (runes_of_ascii "
-options
-
-{ StringPrefixLenType = 
-u8 ;	ArrayPrefixLenType=u32	;
-
-}
-
-packet Quote
-	{ u32
-    Ref 
-, 
-InNote74  { 
-u8  pad0, }, }packet Ack
-
-    {
-repeat string
-
-    OrderId,
-}
-
-    packet
-Logout
-	{ zchar[  7
-
-    ]
-venue, 
-char[
-
-12
-
-    ]
-Px
-
-,
-	string
-    count ,
-	char[] Tail	,
-
-    char[]
-
-Qty,
-
-    Quote
-	,
-
-} root 
-packet Trade{	zchar[	2 ] 
-price
-,
-
-u32
-    x , u32 lastPx @lengthOf(
-Body ),	match 
-x
-	as Body
-	{ 148: Ack  ,
-
-171:
-Quote, 15 
-:
-
-    Logout
-,  }
-    ,	} ")).
-Eval vm_compute in ("<<<M349>>>" ++ check (runes_of_ascii "MetaData string_ {
-char[]
-Packet `
-`
-    , i8i8 A  ,
-string A
-`it's`
-,// trailing space 
-uint64 int
-, }
-// trailing space 
-// " ++ [27880; 37322]%N ++ runes_of_ascii "
-MetaData Z9_ { Header crc , // " ++ [27880; 37322]%N ++ runes_of_ascii "
-} MetaData T {// c
-float32 Z9_ `// not a comment`
-    , char[] /// triple
-uint8x`line1
-line2` ,
-Header u8x,
-char[ 3] a1	,
-    }MetaData Logon { a1 // " ++ [128512]%N ++ runes_of_ascii " emoji
-repeatCount `say ""hi""` , char[
-    42  ] Foo
-    ,
-    zchar[ 00
-    ] metadata
-,
-int16  zchar `it's` , }")).
-Eval vm_compute in ("<<<M99>>>" ++ check (runes_of_ascii "packet i8i8{ matchKey //x
-, match trueish
-//	t
-// c
-as roots
-{  [ 00 ] : int , 255 :  u128  ,	3 : matchKey , [ 65535 ]
-    :
-// c
-//
-trueish , //	t
-}
-    , } packet packetx{ }
-packet
-u8x {@tag(
-3
-    )
-    match x_y_z as
-leftPad
-{ [ 7 ]:  u8x }
-    , @tag(  42
-) int64 lengthOf ,@tag(
-255 )	zchar[ 7 ]	o , A ,@tag( 0
-    // @lengthOf(
-    ) repeat lengthOf u8x, }
-")).
-Eval vm_compute in ("<<<M1714>>>" ++ check (runes_of_ascii "
-root packet  tag
-{
-
-    }
-
-packet
-	MetaDataX {
-char[  007
-] 
-
-    // c
-/// triple
-  asx
-    @calculatedFrom(
-
-    ""a\""b""
-
-) `say ""hi""`  // " ++ [27880; 37322]%N ++ runes_of_ascii "
-
-  ,
-
-    @tag(
-    4294967296 
-) char[ 
-1	//x
-
-	]
-	packetx
-
-@calculatedFrom(""a\""b""
-)	,
-
-    // " ++ [128512]%N ++ runes_of_ascii " emoji
-  // a // b
-	  @calculatedFrom( """ ++ [233]%N ++ runes_of_ascii "t" ++ [233]%N ++ runes_of_ascii """
-
-    ) pack // " ++ [27880; 37322]%N ++ runes_of_ascii "
-
-  ,
-	} 	 // c
- 
-")).
-Eval vm_compute in ("<<<M1176>>>" ++ check (runes_of_ascii "// top
-MetaData
-    // c0
-float
-    // c1
-{
-    // c2
-float64
-    // c3
-charz
-    // c4
-`
-`
-    // c5
-,
-    // c6
-}
-    // c7
+Eval vm_compute in ("<<<M940>>>" ++ check (runes_of_ascii "// trailing space 
 root
-    // c8
-packet
-    // c9
-chars
-    // c10
-{
-    // c11
-@rightPad
-    // c12
-(
-    // c13
-'0'
-    // c14
-)
-    // c15
-Foo
-    // c16
+    packet metadata { @lengthOf(
+asx) x zchar `{ , }`
 ,
-    // c17
-}
-    // c18
-")).
-Eval vm_compute in ("<<<M634>>>" ++ check (runes_of_ascii "root packet tag { }  packet MetaDataX{char[007	]
-// c
-/// triple
-asx  @calculatedFrom( ""a\""b""
-) `say ""hi""`// " ++ [27880; 37322]%N ++ runes_of_ascii "
-,  @tag(4294967296 )
-    char[1//x
-] packetx @calculatedFrom(""a\""b""
-    ) ,
+} packet len { //x
+@tag(  7 ) char[] Pad	, @lengthOf( i8i8
+) char[ 7 ]
+    //
+    repeatCount ,
+char[ 4294967296]
+x_y_z,// @lengthOf(
+repeat  charz { // a // b
+match len
+as
+// @lengthOf(
 // " ++ [128512]%N ++ runes_of_ascii " emoji
-// a // b
-@calculatedFrom(""" ++ [233]%N ++ runes_of_ascii "t" ++ [233]%N ++ runes_of_ascii """  ) repeat repeat pack // " ++ [27880; 37322]%N ++ runes_of_ascii "
-,
-    } // c")).
-Eval vm_compute in ("<<<M499>>>" ++ check (runes_of_ascii "root packet tag { } }  packet MetaDataX{char[007	]
-// c
-/// triple
-asx  @calculatedFrom( ""a\""b""
-) `say ""hi""`// " ++ [27880; 37322]%N ++ runes_of_ascii "
-,  @tag(4294967296 )
-    char[1//x
-] packetx @calculatedFrom(""a\""b""
-    ) ,
-// " ++ [128512]%N ++ runes_of_ascii " emoji
-// a // b
-@calculatedFrom(""" ++ [233]%N ++ runes_of_ascii "t" ++ [233]%N ++ runes_of_ascii """  ) repeat pack // " ++ [27880; 37322]%N ++ runes_of_ascii "
-,
-    } // c")).
-Eval vm_compute in ("<<<M616>>>" ++ check (runes_of_ascii "root packet tag { }  packet MetaDataX{char[007	]
-// c
-/// triple
-asx  @calculatedFrom( ""a\""b""
-) `say ""hi""`// " ++ [27880; 37322]%N ++ runes_of_ascii "
-,  @tag(4294967296 )
-    char[1//x
-] packetx @calculatedFrom(""a\""b""
-    ) u8
-// " ++ [128512]%N ++ runes_of_ascii " emoji
-// a // b
-@calculatedFrom(""" ++ [233]%N ++ runes_of_ascii "t" ++ [233]%N ++ runes_of_ascii """  ) repeat pack // " ++ [27880; 37322]%N ++ runes_of_ascii "
-,
-    } // c")).
-Eval vm_compute in ("<<<M605>>>" ++ check (runes_of_ascii "root packet tag { }  packet MetaDataX{char[007	]
-// c
-/// triple
-asx  @calculatedFrom( ""a\""b""
-) `say ""hi""`// " ++ [27880; 37322]%N ++ runes_of_ascii "
-,  @tag(4294967296 )
-    char[1//x
-] packetx @calculatedFrom()
-    ""a\""b"" ,
-// " ++ [128512]%N ++ runes_of_ascii " emoji
-// a // b
-@calculatedFrom(""" ++ [233]%N ++ runes_of_ascii "t" ++ [233]%N ++ runes_of_ascii """  ) repeat pack // " ++ [27880; 37322]%N ++ runes_of_ascii "
-,
-    } // c")).
-Eval vm_compute in ("<<<M1509>>>" ++ check (runes_of_ascii "packet MDSnapshotZZ {
-    u8 a,
-}
-packet OrderACK {
-    u16 b,
-}
-packet HTTPServerInfo {
-    string s,
-}
-root packet FIXMsg {
-    u8 KType,
-    MDSnapshotZZ,
-    repeat OrderACK,
-    match KType as Body {
-        1 : HTTPServerInfo,
-        2 : OrderACK,
-    },
-}
-")).
-Eval vm_compute in ("<<<M508>>>" ++ check (runes_of_ascii "root packet tag { }  packet {char[007	]
-// c
-/// triple
-asx  @calculatedFrom( ""a\""b""
-) `say ""hi""`// " ++ [27880; 37322]%N ++ runes_of_ascii "
-,  @tag(4294967296 )
-    char[1//x
-] packetx @calculatedFrom(""a\""b""
-    ) ,
-// " ++ [128512]%N ++ runes_of_ascii " emoji
-// a // b
-@calculatedFrom(""" ++ [233]%N ++ runes_of_ascii "t" ++ [233]%N ++ runes_of_ascii """  ) repeat pack // " ++ [27880; 37322]%N ++ runes_of_ascii "
-,
-    } // c")).
-Eval vm_compute in ("<<<M361>>>" ++ check (runes_of_ascii "root
-packet
-f32a {
-trueish
-    falsey
-, tag , repeat
-    // trailing space 
-    Pad{ u32
-    i8i8 @calculatedFrom(""x y""
-    )
-, } ,@calculatedFrom( ""// no comment""  )@lengthOf( calculatedFrom
-    ) @tag(	65535)  string T,
-    }
-
-")).
-Eval vm_compute in ("<<<M1808>>>" ++ check (runes_of_ascii "
-MetaData x_y_z
-
-    {
-	string
-msg_type 
-`" ++ [233]%N ++ runes_of_ascii "`
-,}
-
-    packet
-
-chars
-	{
-
-repeat
-i32
-
-metadata `say ""hi""` , 
-@leftPad( )
-    @tag( 0123456789	)  repeat
-    zchar[
-	    // a // b
-	007	]
+i8i8{
+    /// triple
+    3	: Header, ""// no comment"" : Z9_
+//
 //x
-  lengthOf 
-,	}
-")).
-Eval vm_compute in ("<<<M1728>>>" ++ check (runes_of_ascii "
-packet
-u128
-{
-    u8 a,
-    } root
-
-    packet
-
-Msg{	u8
-
-    k	,	u24 
-{  u8	Hi
-,	u16 Lo
-, 
-}
-
-    ,
-	repeat
-	i24
-	{
-    u32 q
-,} , u128
-    ,
-	u16
-
-float32x
-
-,
-	string
-    s 
-, }
-")).
-Eval vm_compute in ("<<<M463>>>" ++ check (runes_of_ascii "packet
-    // `tick` ""quote"" 'q'
-    crc@leftpad
-// packet A { u8 x, }
-//	t
-{
-u32 a1 ,
-    // trailing space 
-    roots
-charz //
-`two words`,	}
-    MetaData int {
-} /// triple")).
-Eval vm_compute in ("<<<M410>>>" ++ check (runes_of_ascii "packet
-    // `tick` ""quote"" 'q'
-    crc
-// packet A { u8 x, }
-//	t
-{
-u32 a1 , ,
-    // trailing space 
-    roots
-charz //
-`two words`,	}
-    MetaData int {
-} /// triple")).
-Eval vm_compute in ("<<<M329>>>" ++ check (runes_of_ascii "packet
-pack
-    { pack calculatedFrom, len, u16	T,
-@lengthOf( trueish) repeat
-leftPad ,
-@calculatedFrom( """ ++ [233]%N ++ runes_of_ascii "t" ++ [233]%N ++ runes_of_ascii """	) @rightPad	( '0' ) f64 a1,repeat
-trueish Header , } 	 ")).
-Eval vm_compute in ("<<<M392>>>" ++ check (runes_of_ascii "packet
-    // `tick` ""quote"" 'q'
-    42
-// packet A { u8 x, }
-//	t
-{
-u32 a1 ,
-    // trailing space 
-    roots
-charz //
-`two words`,	}
-    MetaData int {
-} /// triple")).
-Eval vm_compute in ("<<<M1753>>>" ++ check (runes_of_ascii "// top
-packet metadata {
-    // c2
-    Logon {
-        // c4
-        A `" ++ [28040; 24687; 31867; 22411]%N ++ runes_of_ascii "`,// c7
-        tag o,// c10
-    },// c12
-    zchar len `// not a comment`,// c16
-}// c17")).
-Eval vm_compute in ("<<<M58>>>" ++ check (runes_of_ascii "root packet chars { /// triple
-int16 trueish	@lengthOf( MetaDataX)
-`tab	here`,} MetaData
-T
-// a // b
-// c
-{
-    int64 packetx `doc`
-    // @lengthOf(
-    ,}")).
-Eval vm_compute in ("<<<M1785>>>" ++ check (runes_of_ascii "
-packet A { match  k as
-
-n {
-	[	1  ,
-
-    ""bb"" 
-, 
-007 , ""d""  ,
-5 
-, 
-""f""
-	, 7
-
-    ,	""h""
-
-, 9,
-	""j"",  11 
-,	""l""
-
-    ]: B 2
+""// no comment""
+: packetx [	65535 ,""\" ++ [233]%N ++ runes_of_ascii """] // a // b
 :
-C } 
-, 
-}
-
-")).
-Eval vm_compute in ("<<<M104>>>" ++ check (runes_of_ascii "/// triple
-options  { Header = 65535
-    ; calculatedFrom =
-""x y"" trueish = true i8i8 = false metadata // trailing space 
-=	""" ++ [28040; 24687]%N ++ runes_of_ascii """ ;
-}
-")).
-Eval vm_compute in ("<<<M1897>>>" ++ check (runes_of_ascii "packet A {
-    match k as n {
-        [
-            1, 22, 007, 4, 5,
-            66, 7, 8
-        ] : B,
-        2 : C,
-    },
-}")).
-Eval vm_compute in ("<<<M1227>>>" ++ check (runes_of_ascii "root packet matchKey // c
-{ zchar[ 3 ] pack @calculatedFrom( ""a	b"" ) `doc` , } options { } MetaData A { int8 msg_type , }")).
-Eval vm_compute in ("<<<M1259>>>" ++ check (runes_of_ascii "root packet matchKey { zchar[ 3 ] pack @calculatedFrom( ""a	b"" ) `doc` , } options { } MetaData A // c
-{ int8 msg_type , }")).
-Eval vm_compute in ("<<<M2112>>>" ++ check (runes_of_ascii "packet  chars {
-} packet  MetaDataX  {
-@tag(42
-
-    )i16 string_
-	,
-
-    repeat
-
-    x // c
-  `say ""hi""`
-
+// `tick` ""quote"" 'q'
+// a // b
+falsey // " ++ [27880; 37322]%N ++ runes_of_ascii "
 ,
-}")).
-Eval vm_compute in ("<<<M2122>>>" ++ check (runes_of_ascii "
-
-  packet
-metadata {
-Logon {
-A
-`" ++ [28040; 24687; 31867; 22411]%N ++ runes_of_ascii "`  ,  tag
-	o
-
+} , repeat// c
+uint32 u8x , }
 ,
-} 
-
+    @tag( //
+007)  T { a1 { match
+tag as body { ""x y""
+: f32a //x
+,
+    7: f32a ,
+""it's""
     // c
-	  , zchar  len
-	`// not a comment`,
-	}
+    :_x, 007 :msg_type , [ 0 ,""""]  : // " ++ [128512]%N ++ runes_of_ascii " emoji
+T , }
+    // c
+    ,}
+, }, }root
+//
+/// triple
+packet
+Pad { @leftPad	( '0') MetaDataX @lengthOf(
+x_y_z )`// not a comment` , }root packet chars { @lengthOf(
+//
+// a // b
+crc)string_ {
+    zchar[ 3] msg_type@lengthOf(As) ,
+    repeat char[
+0]f32a //	t
+, repeat float32 Logon	`" ++ [233]%N ++ runes_of_ascii "`
+, repeat
+u8 f32a  `it's` ,
+} ,// `tick` ""quote"" 'q'
+@tag(65535 )Packet{ repeat crc ,Header packetx `crlf
+line` ,A @calculatedFrom( ""\" ++ [233]%N ++ runes_of_ascii """  ) ,}
+//	t
+//
+,
+    crc stringy  ,repeat//	t
+string_ {
+    u8x  {
+    match asx as u128
+{
+    """ ++ [233]%N ++ runes_of_ascii "t" ++ [233]%N ++ runes_of_ascii """  :calculatedFrom	42 :
+body
+    , ""{,}""
+: chars, [ 4294967296 ,1	]:	BodyLength 007
+    // `tick` ""quote"" 'q'
+    : len , // " ++ [128512]%N ++ runes_of_ascii " emoji
+""abc"" /// triple
+:
+    a1 ,  }
+    , } ,} ,
+    match x_y_z as packetx {
+3 // " ++ [27880; 37322]%N ++ runes_of_ascii "
+: string_	, 0123456789:u
+    , }
+, match
+MetaDataX
+    // @lengthOf(
+    as crc { 3
+: u  ,
+// a // b
+// `tick` ""quote"" 'q'
+3
+    // packet A { u8 x, }
+    : Z9_
+// " ++ [128512]%N ++ runes_of_ascii " emoji
+//
+""a\""b""
+// " ++ [128512]%N ++ runes_of_ascii " emoji
+/// triple
+:
+// `tick` ""quote"" 'q'
+// `tick` ""quote"" 'q'
+MetaDataX
+    // " ++ [27880; 37322]%N ++ runes_of_ascii "
+    ,
+65535 :
+    Z9_,
+// " ++ [27880; 37322]%N ++ runes_of_ascii "
+// " ++ [128512]%N ++ runes_of_ascii " emoji
+}
+,
+}packet
+    packetx{
+MetaDataX{ uint16 Header
+``	, match
+// `tick` ""quote"" 'q'
+// trailing space 
+_x as // trailing space 
+Packet { 007 :  stringy ,
+} , match Packet
+as
+    uint8x { """ ++ [128512]%N ++ runes_of_ascii """  :
+As, """" :
+falsey""{,}"" :packetx ,
+0123456789  :/// triple
+Pad,4294967296	: u
+// @lengthOf(
+// @lengthOf(
+, }
+    , }, pack @calculatedFrom(""it's"" )	,
+repeat string trueish ,
+}
+")).
+Eval vm_compute in ("<<<M841>>>" ++ check (runes_of_ascii "packet
+repeatCount {// `tick` ""quote"" 'q'
+u {
+    /// triple
+    repeat char[] packetx ,x_y_z { repeat
+Foo Z9_
+, match asx // " ++ [128512]%N ++ runes_of_ascii " emoji
+as Logon
+{ 1 :stringy , [ ""abc""
+, 7	, ""abc"",
+    10
+    ,""1"" /// triple
+] : charz
+, }
+,
+    uint8x { MetaDataX roots
+// packet A { u8 x, }
+//x
+,// 50% %s
+u8  pack @calculatedFrom(
+""\n""
+)
+// c
+// @lengthOf(
+, }
+    ,x body ,
+    // " ++ [27880; 37322]%N ++ runes_of_ascii "
+    } ,}
+    , @lengthOf( tag ) asx /// triple
+,	zchar[
+    00  ]x_y_z @calculatedFrom(""\" ++ [233]%N ++ runes_of_ascii """  )// trailing space 
+`tab	here` , @calculatedFrom(
+""CRC32""
+    ) int32
+// @lengthOf(
+// @lengthOf(
+A , @calculatedFrom( ""it's"" )	@leftPad ( ' ')@rightPad ( '\x00'
+) match
+leftPad	as roots{
+    [ 255, 007
+    //	t
+    , 00//
+, ""packet""] // " ++ [128512]%N ++ runes_of_ascii " emoji
+:
+    trueish ,// " ++ [27880; 37322]%N ++ runes_of_ascii "
+}
+, @tag(
+    3 )string options1  @calculatedFrom( ""`tick`""
+)`100% of %d` // trailing space 
+, @leftPad (  '\x00'
+)string uint8x , @leftPad (	' ')
+    @calculatedFrom(""// no comment"") // " ++ [27880; 37322]%N ++ runes_of_ascii "
+@tag( 00 ) metadata	@calculatedFrom(""1"" ) , }
+    root packet a1 { chars
+@calculatedFrom( ""\" ++ [233]%N ++ runes_of_ascii """ ) , @tag(
+    0123456789
+    // packet A { u8 x, }
+    )
+repeatCount i64_ , repeat len { repeat
+zchar[ 255 ]
+A `" ++ [233]%N ++ runes_of_ascii "` ,  string
+calculatedFrom`100% of %d`, f32
+    asx, } ,
+@leftPad	(	) uint64 crc
+    `a\` ,
+@tag( 0123456789
+    // 50% %s
+    )
+string string_ ,
+T
+{
+char[ 255 ] T ,
+}, calculatedFrom string_  ,
+}MetaData leftPad {
+o f32a
+,
+//	t
+//	t
+}
+MetaData lengthOf
+    {string	charz , u64 len
+`{ , }`
+//x
+//	t
+,
+u16 T `tab	here`, char[] Foo, }
+packet	f32a
+    // `tick` ""quote"" 'q'
+    {
+match string_ as crc
+// @lengthOf(
+// `tick` ""quote"" 'q'
+{255 :
+Z9_,
+[
+    """ ++ [128512]%N ++ runes_of_ascii """
+, 7]
+    :
+leftPad,
+    // trailing space 
+    ""\n""
+:
+float """ ++ [233]%N ++ runes_of_ascii "t" ++ [233]%N ++ runes_of_ascii """	: f32a , }
+, repeat u128 { string int
+/// triple
+//	t
+@lengthOf( rootA ) ,  }	, u , }
 
 ")).
-Eval vm_compute in ("<<<M957>>>" ++ check (runes_of_ascii "packet A {
-    Inner {
-        u8 x `tab
-	x`,
-        Deep {
-            u8 y `tab
-	x`,
+Eval vm_compute in ("<<<M209>>>" ++ check (runes_of_ascii "
+packet x
+    { match Foo as stringy  {
+    [
+    ""CRC32"" , //	t
+""{,}"" , ""it's""
+,  ""a\\""
+,
+    // @lengthOf(
+    """ ++ [28040; 24687]%N ++ runes_of_ascii """ , """ ++ [233]%N ++ runes_of_ascii "t" ++ [233]%N ++ runes_of_ascii """]
+// " ++ [27880; 37322]%N ++ runes_of_ascii "
+// @lengthOf(
+: Packet ,} ,
+match Header as
+Foo
+    {
+[ 42
+    , 1
+]: BodyLength , }
+    // `tick` ""quote"" 'q'
+    , i64_ @calculatedFrom(
+    ""it's"" ) `{ , }` ,
+    } root // `tick` ""quote"" 'q'
+packet	stringy { zchar[ 42 ]
+    asx
+`doc` ,
+// packet A { u8 x, }
+//x
+}
+    packet Z9_ { uint8
+// " ++ [27880; 37322]%N ++ runes_of_ascii "
+// " ++ [27880; 37322]%N ++ runes_of_ascii "
+charz @calculatedFrom( ""CRC32"" ) `it's` , match stringy
+    as  u128 { 42 : i8i8// trailing space 
+, 0123456789 : charz ,
+[00
+, ""\" ++ [233]%N ++ runes_of_ascii """ , """ ++ [128512]%N ++ runes_of_ascii """ ,""\n"" , 10 , 42 ,	10 ] :
+falsey	, 10 : pack
+    ,	} , @tag( 10 ) repeat trueish
+{ x_y_z MetaDataX `100% of %d` , } , tag
+@calculatedFrom( ""`tick`"" ) ,
+// c
+// @lengthOf(
+@calculatedFrom(""x y"" ) len // 50% %s
+`
+` ,@calculatedFrom( // " ++ [27880; 37322]%N ++ runes_of_ascii "
+""`tick`""
+    )repeat // a // b
+pack { MetaDataX`" ++ [28040; 24687; 31867; 22411]%N ++ runes_of_ascii "` // `tick` ""quote"" 'q'
+,repeat char[
+007
+    ]
+Header // " ++ [128512]%N ++ runes_of_ascii " emoji
+,}
+, match msg_type as uint8x{ ""a\""b"" :uint8x 00: i64_,
+10 : Header""packet"" :
+f32a ,} , repeat string_ i8i8 , int32
+    charz `// not a comment` ,@rightPad
+( ) // 50% %s
+match T
+    as charz
+{ [""\n""
+    , """" , 10 , 10
+,10 ,
+10 , 4294967296 ]
+:crc// packet A { u8 x, }
+, ""a	b"" : a1
+,	""\" ++ [233]%N ++ runes_of_ascii """  : // @lengthOf(
+len
+, 255
+    // c
+    :
+x
+    } ,}options { // " ++ [128512]%N ++ runes_of_ascii " emoji
+packetx =false } packet u {
+    //x
+    @calculatedFrom( """ ++ [28040; 24687]%N ++ runes_of_ascii """ )repeat
+// packet A { u8 x, }
+// a // b
+char[ 7 ]	Logon, }
+
+")).
+Eval vm_compute in ("<<<M1405>>>" ++ check (runes_of_ascii "options {
+	StringPrefixLenType = u16;
+	ArrayPrefixLenType = u16;
+}
+
+packet SampleBinary {
+    uint16 MsgType `" ++ [28040; 24687; 31867; 22411]%N ++ runes_of_ascii "`,
+    u16 BodyLenght @lengthOf(Body) `" ++ [28040; 24687; 20307; 38271; 24230]%N ++ runes_of_ascii "`,
+    match MsgType as Body {
+        1 : Logon,
+        2 : Logout,
+        3 : Heartbeat,
+        4 : RiskControlRequest,
+        5 : RiskControlResponse,
+    },
+        @calculatedFrom(""CRC32"")
+    u32 Ckecksum `" ++ [26657; 39564; 21644]%N ++ runes_of_ascii "`,
+}
+
+packet Logon {
+     @leftPad('0')
+    char[10] UserName `" ++ [29992; 25143; 21517]%N ++ runes_of_ascii "`,
+    string Password `" ++ [23494; 30721]%N ++ runes_of_ascii "`,
+    uint64 ClientId `" ++ [23458; 25143; 31471]%N ++ runes_of_ascii "ID`,
+    u16 HeartbeatInterval `" ++ [24515; 36339; 38388; 38548]%N ++ runes_of_ascii "`,
+}
+
+packet Logout {
+      @rightPad('0')
+    char[10] UserName `" ++ [29992; 25143; 21517]%N ++ runes_of_ascii "`,
+    uint64 ClientId `" ++ [23458; 25143; 31471]%N ++ runes_of_ascii "ID`,
+}
+
+packet Heartbeat {
+}
+
+packet RiskControlRequest {
+    string UniqueOrderId `" ++ [21807; 19968; 35746; 21333; 21495]%N ++ runes_of_ascii "`,
+    char[16] ClOrdID `" ++ [23458; 25143; 35746; 21333; 21495]%N ++ runes_of_ascii "`,
+    char[3] MarketID `" ++ [24066; 22330]%N ++ runes_of_ascii "id`,
+    char[12] SecurityID `" ++ [35777; 21048; 20195; 30721]%N ++ runes_of_ascii "`,
+    char Side `" ++ [20080; 21334; 26041; 21521]%N ++ runes_of_ascii "`,
+    char OrderType `" ++ [35746; 21333; 31867; 22411]%N ++ runes_of_ascii "`,
+    u64 Price `" ++ [20215; 26684]%N ++ runes_of_ascii "`,
+    u32 Qty `" ++ [25968; 37327]%N ++ runes_of_ascii "`,
+    repeat string ExtraInfo `" ++ [38468; 21152; 20449; 24687]%N ++ runes_of_ascii "`,
+    repeat SubOrder {
+    		char[16] ClOrdID `" ++ [23376; 35746; 21333; 21495]%N ++ runes_of_ascii "`,
+    		u64 Price `" ++ [23376; 35746; 21333; 20215; 26684]%N ++ runes_of_ascii "`,
+    		u32 Qty `" ++ [23376; 35746; 21333; 25968; 37327]%N ++ runes_of_ascii "`,
+    	},
+}
+
+packet RiskControlResponse {
+    string UniqueOrderId `" ++ [21807; 19968; 35746; 21333; 21495]%N ++ runes_of_ascii "`,
+    i32 Status `" ++ [29366; 24577]%N ++ runes_of_ascii "`,
+    string Msg `" ++ [32467; 26524; 20449; 24687]%N ++ runes_of_ascii "`,
+    repeat Detail,
+}
+
+packet Detail {
+    string RuleName `" ++ [35268; 21017; 21517; 31216]%N ++ runes_of_ascii "`,
+    u16 Code `" ++ [21407; 22240; 20195; 30721]%N ++ runes_of_ascii "`,
+}")).
+Eval vm_compute in ("<<<M3965>>>" ++ check (runes_of_ascii "root packet x {
+    @calculatedFrom(""" ++ [233]%N ++ runes_of_ascii "t" ++ [233]%N ++ runes_of_ascii """)
+    // `tick` ""quote"" 'q'
+    // 50% %s
+    Header tag `
+    `,
+    pack BodyLength `" ++ [233]%N ++ runes_of_ascii "`,/// triple
+    @tag(7)
+    Packet,
+}
+
+packet BodyLength {
+    BodyLength,
+}
+
+packet float {
+    match packetx as u {
+        [
+            10, """ ++ [128512]%N ++ runes_of_ascii """, 255, ""// no comment"", 42,
+            00, ""{,}"", """ ++ [28040; 24687]%N ++ runes_of_ascii """
+        ] : Packet,
+    },
+    @rightPad('0')
+    repeat uint16 chars,
+    @calculatedFrom(""" ++ [233]%N ++ runes_of_ascii "t" ++ [233]%N ++ runes_of_ascii """)
+    string leftPad,
+    match len as stringy {
+        3 : pack,
+    },
+    repeat u8 Foo,
+    roots @lengthOf(len) `it's`,
+    // a // b
+    // trailing space 
+    @lengthOf(u128)
+    char[255] string_,
+    zchar[0123456789] stringy,
+    @tag(10)
+    match metadata as A {
+        0123456789 : lengthOf,
+        10 : o,
+        // packet A { u8 x, }
+        // 50% %s
+        [
+            ""a	b"", 00, 3, 007, ""a\""b"",
+            10
+        ] : chars,
+        42 : u,
+        """ ++ [28040; 24687]%N ++ runes_of_ascii """ : f32a,
+        7 : u8x,
+    },
+}
+
+root packet u {
+    repeat o {
+        repeat crc {
+            int8 i8i8 @calculatedFrom(""x y"") `tab	here`,
+            repeat falsey {
+                uint32 crc @lengthOf(MetaDataX) `100% of %d`,
+            },
         },
     },
 }")).
-Eval vm_compute in ("<<<M907>>>" ++ check (runes_of_ascii "packet A {
-  match k as n {
-    [1, 22, ""c c"", 4, 5, ""f"", 7, 8, ""i"", 10, 11, ""l""] : B,
-    2 : C
-  },
+Eval vm_compute in ("<<<M4207>>>" ++ check (runes_of_ascii "options {
+    // c1a
+    // c1b
+    LittleEndian = true;// c5
+    StringPrefixLenType = u8;// c9a
+    // c9b
+    FixedStringPadFromLeft = false;// c13
+    FixedStringPadChar = '0';// c17
+}
+
+// c18
+packet Order {
+    repeat string Px,// c25a
+    // c25b
+    repeat char[2] Qty,
+    string Tail,// c34
+    char[] OrderId,
+    // c37
+    int8 tag7,// c40
+    int64 Flags,// c43
+}// c44
+
+packet Party {
+    // c47a
+    // c47b
+    Order,// c49
+    f32 lastPx,
+    f32 Note,// c55a
+    // c55b
+    string x,
+}// c59
+
+packet Logon {
+    uint8 OrderId,
+    // c65
+    string msgKind,// c68
+    int32 lastPx,// c71
+}// c72a
+
+// c72b
+packet Ack {
+    // c75
+}
+
+// c76
+packet Cancel {
+    // c79
+    repeat char[5] Note,// c85a
+    // c85b
+    repeat i32 x,
+    Ack,
+    // c91
+    repeat InF16 {
+        repeat i8 sym,
+    },// c100a
+    // c100b
+    char[1] Acct,
+    // c105
+}// c106a
+
+// c106b
+root packet Fill {
+    // c110
+    i32 price,
+    @leftPad(' ')
+    // c117
+    char[8] msgKind,
+    // c122
+    char[] Acct,// c125a
+    // c125b
+    char[] Note,// c128
+    uint64 venue,// c131a
+    // c131b
+}// c132")).
+Eval vm_compute in ("<<<M1313>>>" ++ check (runes_of_ascii "root packet
+// " ++ [27880; 37322]%N ++ runes_of_ascii "
+// `tick` ""quote"" 'q'
+x {
+}
+    packet trueish{ @rightPad(' '  )
+    repeat u16 As `tab	here`
+, }
+    root  packet Packet { falsey
+    @calculatedFrom( """ ++ [28040; 24687]%N ++ runes_of_ascii """) //	t
+, @lengthOf(	u128
+    ) repeat zchar[	42]
+calculatedFrom `it's`
+, u64 options1 @lengthOf( repeatCount )	, @rightPad
+    (' '
+    )
+    @calculatedFrom( ""x y"" ) @rightPad ( '\x00') msg_type {
+string A @calculatedFrom(  ""`tick`"" ) // trailing space 
+, i16  Pad
+@calculatedFrom( """ ++ [233]%N ++ runes_of_ascii "t" ++ [233]%N ++ runes_of_ascii """) `line1
+line2` , float64
+roots  @lengthOf(
+body // `tick` ""quote"" 'q'
+), }
+    , @tag( // 50% %s
+007 )f32 BodyLength  @lengthOf( float ) ,	Pad Foo  ,char[] chars `it's` , @calculatedFrom( """ ++ [233]%N ++ runes_of_ascii "t" ++ [233]%N ++ runes_of_ascii """
+    )
+Pad
+{ repeat BodyLength
+uint8x , match Pad
+    as Foo{""packet""
+    : i64_ ,
+[
+4294967296 ,""{,}"" ]
+:BodyLength 10 :repeatCount
+    ,[
+0123456789 ,3 , 42
+, ""\n""	, ""x y""]: Logon ,  [  10 , ""`tick`""
+, 0123456789]: tag ,42
+: trueish	} , repeat
+//
+// trailing space 
+zchar[ 4294967296
+] Foo `it's`,
+}
+    , } packet float
+    {	@tag(1 ) u64 options1@calculatedFrom(""a\""b"" )
+    ,}")).
+Eval vm_compute in ("<<<M1224>>>" ++ check (runes_of_ascii "// trailing space 
+packet i8i8 //x
+{ @leftPad (
+'\x00'
+) @tag( 007)i32 _x
+`tab	here` ,
+    @tag( 00
+    )
+    repeat a1`" ++ [28040; 24687; 31867; 22411]%N ++ runes_of_ascii "` , _x /// triple
+`it's` // " ++ [27880; 37322]%N ++ runes_of_ascii "
+,// " ++ [128512]%N ++ runes_of_ascii " emoji
+@leftPad ( ' '
+    ) @calculatedFrom(
+    ""\n""
+) @leftPad ( '0'	) repeat f64 a1 , match _x as repeatCount { 3 :
+stringy, [	""abc""
+] :	u8x , 42 : packetx
+    ,""{,}"":charz
+    00:matchKey //	t
+,
+    } //
+,match crc as
+options1{ 65535
+    // packet A { u8 x, }
+    : x
+, 10 // " ++ [27880; 37322]%N ++ runes_of_ascii "
+:	_x
+//
+//
+, [ """ ++ [233]%N ++ runes_of_ascii "t" ++ [233]%N ++ runes_of_ascii """ , // @lengthOf(
+""{,}""	] :chars ,  } , // trailing space 
+x_y_z { i16	Packet , repeat chars `doc` , repeat u32	trueish,
+float // a // b
+o , }
+, repeat
+    int8 Packet, @lengthOf( // a // b
+leftPad // packet A { u8 x, }
+) repeat // packet A { u8 x, }
+rootA
+, int64
+    float // packet A { u8 x, }
+, }
+    root packet rootA{ char[ 00 ]len @calculatedFrom(""packet"" )
+, u32 float
+@calculatedFrom( """ ++ [233]%N ++ runes_of_ascii "t" ++ [233]%N ++ runes_of_ascii """ // c
+), } packet falsey{
+    x_y_z	@calculatedFrom( ""{,}"" ) `100% of %d` ,} packet Pad { @tag( 4294967296) u8
+int
+, }
+")).
+Eval vm_compute in ("<<<M96>>>" ++ check (runes_of_ascii "packet calculatedFrom { repeat string x_y_z,As  @lengthOf(  options1
+    ) `say ""hi""`
+, @rightPad( ) int	{  repeat
+As
+    rootA``	,char[]
+// " ++ [27880; 37322]%N ++ runes_of_ascii "
+// `tick` ""quote"" 'q'
+string_ ,// " ++ [27880; 37322]%N ++ runes_of_ascii "
+repeat
+    // " ++ [128512]%N ++ runes_of_ascii " emoji
+    u128	u, } ,
+    } packet
+    Header{ }
+packet charz {@lengthOf( rootA) u64 calculatedFrom @lengthOf( // c
+lengthOf ) `100% of %d`
+// 50% %s
+// c
+, asx @calculatedFrom( ""// no comment"" // `tick` ""quote"" 'q'
+) , int32 len , } packet uint8x
+{
+    @tag(7 ) @calculatedFrom(""\n"" ) string _x , @calculatedFrom( ""`tick`""
+    // trailing space 
+    )@leftPad
+    // trailing space 
+    (' '
+)// `tick` ""quote"" 'q'
+zchar
+,//x
+@lengthOf( x_y_z ) o , i64_	pack ,
+@leftPad (
+)
+    repeat zchar[ 255 //
+] u , i8
+    chars @calculatedFrom(
+    // c
+    ""a\\"" ) `crlf
+line` ,
+char u128 // a // b
+`` ,
+@calculatedFrom(/// triple
+""\n"" )	repeat	tag body	,}
+    // packet A { u8 x, }
+    options{
+    calculatedFrom =  i64 pack	= uint16 }
+")).
+Eval vm_compute in ("<<<M3876>>>" ++ check (runes_of_ascii "root packet uint8x {
+    match roots as a1 {
+        ""a\\"" : int,
+    },
+    stringy pack,
+    string_ @lengthOf(msg_type) `100% of %d`,
+    repeat f32 x_y_z `it's`,
+    zchar[7] lengthOf @lengthOf(int),
+}
+
+options {
+}
+
+packet Logon {
+    char[] _x `" ++ [28040; 24687; 31867; 22411]%N ++ runes_of_ascii "`,
+    char[7] matchKey,
+    @rightPad('0')
+    char[3] len,
+    Foo @calculatedFrom(""a	b""),// packet A { u8 x, }
+}// `tick` ""quote"" 'q'
+
+options {
+}
+
+root packet a1 {
+    uint64 stringy,
+    @tag(10)
+    match a1 as BodyLength {
+        [10, 4294967296, 1] : zchar,
+    },
+    @rightPad()
+    string string_ @lengthOf(x_y_z) `two words`,
+    char[] T,
+    @leftPad('0')
+    string_ {
+        /// triple
+        //x
+        match matchKey as crc {
+            [""\" ++ [233]%N ++ runes_of_ascii """, 3, ""x y""] : calculatedFrom,
+        },
+        u128 Packet `{ , }`,
+        float o,
+        Packet @calculatedFrom(""{,}""),
+        /// triple
+        //	t
+    },
 }")).
-Eval vm_compute in ("<<<M945>>>" ++ check (runes_of_ascii "packet A {
+Eval vm_compute in ("<<<M577>>>" ++ check (runes_of_ascii "  options { } root // @lengthOf(
+packet x_y_z // @lengthOf(
+{string	u128 ,i8 zchar , repeatCount roots `crlf
+line`  ,} options {	float=char[
+0
+    ] // c
+}
+packet  packetx
+    {
+    @rightPad// c
+( '0'
+//
+// @lengthOf(
+) Packet { roots x
+,
+    } , zchar[ 0  ] trueish	@lengthOf( // 50% %s
+zchar ), @lengthOf( float ) @leftPad(
+'0' ) //x
+@lengthOf( calculatedFrom ) char[/// triple
+4294967296  ]
+    x `" ++ [28040; 24687; 31867; 22411]%N ++ runes_of_ascii "` ,Z9_	@calculatedFrom( ""\n"" ),} packet MetaDataX {@rightPad //	t
+( '0' ) @tag( 42
+)a1 `` ,@calculatedFrom( """ ++ [233]%N ++ runes_of_ascii "t" ++ [233]%N ++ runes_of_ascii """ ) @tag( 007) @leftPad
+    ( // packet A { u8 x, }
+) char[ 1
+] roots @lengthOf(
+    repeatCount ) , char[]string_
+@lengthOf( repeatCount )
+,@tag( 3 )char[] x_y_z `u8 x,` ,  f64 o @lengthOf(
+o ) , @calculatedFrom( """ ++ [28040; 24687]%N ++ runes_of_ascii """//x
+) zchar[ 007 ] options1
+    @lengthOf( msg_type) , @rightPad
+( // c
+'0'	)lengthOf  ,int8
+a1 ,  }
+")).
+Eval vm_compute in ("<<<M4041>>>" ++ check (runes_of_ascii "root packet Foo {
+    char[] lengthOf,
+    @rightPad('0')
+    string i8i8,
+    repeat uint32 u8x,
+    @tag(255)
+    char[] leftPad `" ++ [28040; 24687; 31867; 22411]%N ++ runes_of_ascii "`,
+    falsey @calculatedFrom(""a	b"") `crlf
+        line`,
+    @rightPad(' ')
+    zchar[65535] matchKey,
+}
+
+root packet f32a {
+    repeat packetx,
+    //
+    // " ++ [27880; 37322]%N ++ runes_of_ascii "
+    @lengthOf(matchKey)
+    match MetaDataX as i8i8 {
+        7 : u8x,
+        ""a	b"" : calculatedFrom,
+    },
+    @calculatedFrom(""1"")
+    // `tick` ""quote"" 'q'
+    lengthOf @lengthOf(f32a),
+    len A,
+    chars @lengthOf(calculatedFrom),
+    zchar[0123456789] f32a,
+    char[] metadata `tab	here`,
+    As @lengthOf(_x) `say ""hi""`,
+}
+
+root packet As {
+    int32 metadata `" ++ [233]%N ++ runes_of_ascii "`,
+    x,
+}
+
+options {
+    x = char[10];
+    x_y_z = zchar[007];
+    matchKey = zchar[00]
+    asx = zchar[0123456789]
+    //
+}")).
+Eval vm_compute in ("<<<M834>>>" ++ check (runes_of_ascii "packet
+// trailing space 
+/// triple
+uint8x { match leftPad as float { 0123456789 // " ++ [27880; 37322]%N ++ runes_of_ascii "
+: tag[ 007 ]
+: Logon ,
+    ""it's"" : leftPad  , """ ++ [128512]%N ++ runes_of_ascii """	: lengthOf , }
+    , } // 50% %s
+packet x { @tag(	42 ) // c
+rootA
+    // @lengthOf(
+    chars , @calculatedFrom(
+    ""a\""b"" )
+@rightPad
+    // " ++ [128512]%N ++ runes_of_ascii " emoji
+    ( )@tag(  7)
+    /// triple
+    match A  as matchKey
+{	[42 // packet A { u8 x, }
+] :
+    msg_type""x y""	:lengthOf ""a\\""
+    :
+packetx
+// " ++ [27880; 37322]%N ++ runes_of_ascii "
+// 50% %s
+,  [""`tick`""
+// " ++ [27880; 37322]%N ++ runes_of_ascii "
+// `tick` ""quote"" 'q'
+, ""x y"" , ""a\""b""
+,	""x y"" , 00
+    ,""it's""
+    , 7// `tick` ""quote"" 'q'
+,""""
+]
+    // `tick` ""quote"" 'q'
+    : Logon
+}, @lengthOf(
+falsey )
+repeat
+falsey`" ++ [28040; 24687; 31867; 22411]%N ++ runes_of_ascii "`, u8x { // trailing space 
+int16 lengthOf`100% of %d`
+,
+    match/// triple
+tag
+as f32a {
+    7 :
+x ,}
+    ,	} ,
+}
+")).
+Eval vm_compute in ("<<<M1185>>>" ++ check (runes_of_ascii "MetaData lengthOf { uint32 charz`100% of %d`//	t
+,
+    } packet zchar{
+    @calculatedFrom(	""x y"" ) match As
+// trailing space 
+// `tick` ""quote"" 'q'
+as As
+{ [ 7 ,""" ++ [128512]%N ++ runes_of_ascii """
+    ] : lengthOf, [""""
+, 007
+,
+    3 , 42	, ""\n""// packet A { u8 x, }
+] :Packet // " ++ [27880; 37322]%N ++ runes_of_ascii "
+, //x
+} , @leftPad ()
+    @tag( 42 ) zchar// c
+,
+@lengthOf( x ) uint16 crc // " ++ [27880; 37322]%N ++ runes_of_ascii "
+@lengthOf(lengthOf // " ++ [128512]%N ++ runes_of_ascii " emoji
+) `u8 x,`// c
+,Foo { repeat packetx , zchar[3] chars@lengthOf(
+/// triple
+//	t
+tag ), string chars
+    // `tick` ""quote"" 'q'
+    @calculatedFrom(	""abc"" ) `a\`,
+}	, @rightPad( '0'  )Logon {
+// " ++ [128512]%N ++ runes_of_ascii " emoji
+// " ++ [27880; 37322]%N ++ runes_of_ascii "
+int16 leftPad
+//	t
+// `tick` ""quote"" 'q'
+@calculatedFrom(	""""),
+Foo@calculatedFrom(  ""\" ++ [233]%N ++ runes_of_ascii """
+) ,
+// 50% %s
+// @lengthOf(
+int16  len `u8 x,` , } ,	} MetaData matchKey {
+    }
+")).
+Eval vm_compute in ("<<<M230>>>" ++ check (runes_of_ascii "root packet Header { @calculatedFrom( //
+""abc""
+) uint8 metadata ,
+@tag(
+65535
+    ) @tag( 3 )
+i8 charz , @calculatedFrom( """"
+) @lengthOf( A ) @leftPad( ) uint16 Z9_ ,
+repeat zchar[ // " ++ [27880; 37322]%N ++ runes_of_ascii "
+1 ] metadata
+``,u8x @calculatedFrom(	""" ++ [128512]%N ++ runes_of_ascii """ )
+    //x
+    `{ , }` //x
+, repeat f32
+    Foo , len
+// " ++ [128512]%N ++ runes_of_ascii " emoji
+// `tick` ""quote"" 'q'
+@calculatedFrom( ""// no comment"" )
+,repeat char[ 3  ]tag, repeat zchar[ 0123456789 ]
+    asx
+,
+    u128, } options {	asx =007 ; calculatedFrom
+    = false ; uint8x= zchar[ 65535
+]
+; A=
+' '
+    } packet len
+    // `tick` ""quote"" 'q'
+    { @leftPad
+    ( ' ' )	string Pad
+    // packet A { u8 x, }
+    @calculatedFrom(""a\""b""  )	,
+    }packet stringy  {@leftPad(
+' ' ) repeat i64_ ,
+    }
+")).
+Eval vm_compute in ("<<<M3593>>>" ++ check (runes_of_ascii "root packet T {
+}
+
+MetaData Header {
+    zchar[4294967296] i64_ `" ++ [28040; 24687; 31867; 22411]%N ++ runes_of_ascii "`,
+}
+
+packet leftPad {
+    @calculatedFrom(""a\\"")
+    match charz as a1 {
+        /// triple
+        ""`tick`"" : As,
+        [10, 3] : u8x,
+        [255, 0] : leftPad,
+        10 : repeatCount,
+    },
+    @tag(007)
+    // packet A { u8 x, }
+    uint8 f32a,
+    @rightPad(' ')
+    @leftPad('\x00')
+    @lengthOf(stringy)
+    T @lengthOf(charz),
+    metadata matchKey,
+    A T,
+    @leftPad('0')
+    char[1] Packet,
+    @tag(7)
+    @leftPad(' ')
+    zchar[7] rootA @lengthOf(uint8x),
+    // `tick` ""quote"" 'q'
+    zchar[0123456789] Header `u8 x,`,
+    char[255] x @lengthOf(MetaDataX) `line1
+        line2`,
+}")).
+Eval vm_compute in ("<<<M3925>>>" ++ check (runes_of_ascii "options {
+    // c1
+    LittleEndian = false;
+    // c5
+    ArrayPrefixLenType = u8;
+    // c9
+}
+
+// c10
+packet Reject {
+    int8 x,
+}
+
+packet Trade {
+    zchar[4] msgKind,
+    // c25
+}
+
+// c26
+root packet Leg {
+    // c30
+    repeat i64 Note,
+    u8 venue,// c37a
+    // c37b
+    @leftPad('0')
+    // c41
+    char[6] Qty,
+    // c46
+    @rightPad('\x00')
+    char[12] count,
+    repeat Reject,
+    repeat char[3] Px,// c64a
+    // c64b
+    u16 lastPx,// c67a
+    // c67b
+    u16 Acct @lengthOf(Body),// c73
+    match lastPx as Body {
+        // c78
+        104 : Reject,
+        // c82
+        61 : Trade,
+        // c86a
+        // c86b
+    },// c88
+}")).
+Eval vm_compute in ("<<<M3492>>>" ++ check (runes_of_ascii "// top
+packet
+    // c0
+Sub // c1a
+  // c1b
+{
+    // c2
+u8 a
+    // c4
+, // c5
+@calculatedFrom( // c6a
+  // c6b
+""CRC16""
+    // c7
+) // c8a
+  // c8b
+i16 // c9
+SubSum ,
+    // c11
+} root // c13
+packet // c14a
+  // c14b
+Frame // c15a
+  // c15b
+{ // c16a
+  // c16b
+u16 MsgType // c18
+, // c19a
+  // c19b
+u16 BodyLen // c21
+@lengthOf(
+    // c22
+Body ) // c24a
+  // c24b
+, Sub Body // c27
+, // c28
+string note // c30
+,
+    // c31
+@calculatedFrom( // c32a
+  // c32b
+""CRC16"" // c33a
+  // c33b
+) // c34
+i16 // c35a
+  // c35b
+Checksum // c36a
+  // c36b
+, u8 // c38a
+  // c38b
+tail // c39a
+  // c39b
+, // c40a
+  // c40b
+} // c41a
+  // c41b
+")).
+Eval vm_compute in ("<<<M3763>>>" ++ check (runes_of_ascii "options {
+    i8i8 = ""1""
+    u = ""a	b"";
+    a1 = zchar[00];
+    // c
+    o = ""a	b"";
+    float = char[];
+}
+
+root packet chars {
+}
+
+packet body {
+    repeat u8x {
+        int16 zchar,
+        char[1] o `" ++ [233]%N ++ runes_of_ascii "`,
+    },
+}
+
+packet BodyLength {
+    // c
+    @rightPad('0')
+    u16 u8x @calculatedFrom(""// no comment""),
+    @tag(1)
+    // a // b
+    // " ++ [128512]%N ++ runes_of_ascii " emoji
+    match i8i8 as u128 {
+        007 : len,
+        """ ++ [128512]%N ++ runes_of_ascii """ : u128,
+    },
+    repeat repeatCount `u8 x,`,
+    @calculatedFrom(""x y"")
+    falsey {
+        char[255] crc,
+        Logon `two words`,
+        roots options1,
+    },
+}
+
+root packet calculatedFrom {
+}")).
+Eval vm_compute in ("<<<M539>>>" ++ check (runes_of_ascii "root packet lengthOf// packet A { u8 x, }
+{  repeat float
+{
+int32 crc
+    // 50% %s
+    @calculatedFrom( ""{,}"" ) ,match chars//x
+as _x
+    { 00: crc , [	""a\""b"" , 10, 255 ] :chars
+, 0123456789 : crc
+, } , //x
+match Foo
+as
+roots { ""a\\""
+: string_ 007:
+u8x
+    [
+""" ++ [128512]%N ++ runes_of_ascii """ ,""it's"" ]
+    : MetaDataX ,[4294967296 ,0123456789 , 10 // 50% %s
+]
+:crc , [
+""a\\"" ,7 ]	: trueish ,[	10
+,	1
+] :	string_ ,
+    }, }
+    // trailing space 
+    ,}	packet
+    // c
+    f32a{
+    // @lengthOf(
+    @leftPad	(
+/// triple
+// 50% %s
+) @tag(
+    // @lengthOf(
+    7 ) @lengthOf( T )
+repeat
+packetx x_y_z, }")).
+Eval vm_compute in ("<<<M1052>>>" ++ check (runes_of_ascii "packet Z9_ {string u8x
+    `
+` ,
+    @tag(
+    3
+// " ++ [128512]%N ++ runes_of_ascii " emoji
+//	t
+) f64 rootA // " ++ [128512]%N ++ runes_of_ascii " emoji
+@calculatedFrom( ""packet"" )
+`two words` , } root packet
+    A
+{  char // `tick` ""quote"" 'q'
+o	@calculatedFrom(	""it's"" ) , @calculatedFrom( ""a\""b"" )@lengthOf( f32a )match lengthOf as asx
+    {""// no comment""// `tick` ""quote"" 'q'
+://	t
+packetx
+, ""// no comment"": x  , [
+4294967296]// packet A { u8 x, }
+:rootA
+, ""{,}"" : leftPad
+,""\n""
+    : // 50% %s
+u	, 255
+    :
+leftPad	,  } , @calculatedFrom( ""1"" // a // b
+)	repeat stringy { i64_ repeatCount , } , } // trailing space ")).
+Eval vm_compute in ("<<<M4247>>>" ++ check (runes_of_ascii "root packet A {
+    f64 chars @lengthOf(Z9_),
+    @lengthOf(repeatCount)
+    //
+    match falsey as crc {
+        7 : _x,
+    },
+}
+
+packet body {
+    @lengthOf(BodyLength)
+    charz @calculatedFrom(""// no comment"") `line1
+    line2`,
+    @calculatedFrom(""// no comment"")
+    @leftPad(' ')
+    @lengthOf(body)
+    options1 @lengthOf(string_) `
+    `,
+    match _x as lengthOf {
+        // `tick` ""quote"" 'q'
+        ""`tick`"" : u8x,
+        ""abc"" : o,
+        // c
+        1 : metadata,
+        [3] : uint8x,
+        65535 : charz,
+    },
+}")).
+Eval vm_compute in ("<<<M1035>>>" ++ check (runes_of_ascii "packet chars {	i8i8 @calculatedFrom(
+// " ++ [27880; 37322]%N ++ runes_of_ascii "
+// `tick` ""quote"" 'q'
+""a\""b""
+) `
+` , @lengthOf(Foo
+    ) @lengthOf( roots)@tag( 255 ) zchar[ 7
+] rootA@calculatedFrom(	"""")`" ++ [28040; 24687; 31867; 22411]%N ++ runes_of_ascii "` ,
+    }
+// packet A { u8 x, }
+//x
+packet u128 {
+match calculatedFrom as i64_ {	007
+    : // @lengthOf(
+charz 1	: u8x, 00 : // @lengthOf(
+stringy
+""1""	: roots 42
+    :
+Packet	, }
+    ,
+// " ++ [27880; 37322]%N ++ runes_of_ascii "
+//	t
+a1
+    , u``,
+    @calculatedFrom( ""`tick`"" ) @leftPad  (
+    /// triple
+    '0' )	repeat char[ 1]	x
+,
+    }
+    options {Z9_
+    =
+'0'	;
+    }
+")).
+Eval vm_compute in ("<<<M731>>>" ++ check (runes_of_ascii "root packet crc { repeat
+f32a
+metadata  , Pad { string leftPad @lengthOf(
+Logon
+)//
+`u8 x,`, uint16 rootA `tab	here` ,char[ 007 ]
+crc
+    @calculatedFrom( ""a	b"" // c
+) `two words`
+    ,
+    match
+    rootA
+as
+chars{ [ 1 ,3
+    ,00
+, 255
+    ] : uint8x ,
+// `tick` ""quote"" 'q'
+//
+1:u, 1
+:
+int,  00  : MetaDataX, },
+} , repeat uint32
+len, repeat i8 roots `{ , }` ,
+    i32 body // a // b
+@lengthOf( calculatedFrom )
+    , } packet  Pad
+{
+    }
+    MetaData stringy{uint32 u128
+    , }
+")).
+Eval vm_compute in ("<<<M652>>>" ++ check (runes_of_ascii "/// triple
+root packet leftPad //
+{
+    repeat metadata Logon ,
+    i32 crc
+@lengthOf( f32a
+),@lengthOf( packetx ) @rightPad	(' ' )
+//
+// @lengthOf(
+@tag( 3
+)
+match falsey as leftPad {
+    [ """ ++ [233]%N ++ runes_of_ascii "t" ++ [233]%N ++ runes_of_ascii """ ] :
+crc ,
+1
+    : Packet //
+,	[
+""CRC32"" ,
+    00 ,
+    7 ]: A
+, ""x y"" :
+falsey ,[  007, ""x y"" ]: Logon
+0123456789  :leftPad }
+,repeat leftPad ,
+@lengthOf(
+int )	i8 o @lengthOf(
+    i64_ )`two words`
+, u128 {
+tag{
+repeat lengthOf zchar `{ , }` , } , } ,
+    }")).
+Eval vm_compute in ("<<<M614>>>" ++ check (runes_of_ascii "MetaData
+    Z9_ { }root packet // " ++ [128512]%N ++ runes_of_ascii " emoji
+MetaDataX{@calculatedFrom( ""// no comment"" ) match
+Packet as body {
+""" ++ [233]%N ++ runes_of_ascii "t" ++ [233]%N ++ runes_of_ascii """ :metadata """ ++ [28040; 24687]%N ++ runes_of_ascii """: // " ++ [128512]%N ++ runes_of_ascii " emoji
+u8x
+, 10 : matchKey
+""" ++ [28040; 24687]%N ++ runes_of_ascii """: stringy ,	},@leftPad
+('0' ) char[] pack , @lengthOf(
+charz ) match
+    charz	as metadata// packet A { u8 x, }
+{
+    ""{,}"" : i64_ ,[0 ] : calculatedFrom
+    ,
+    ""CRC32"" :
+rootA , [
+4294967296 , ""packet""] : len
+//	t
+// " ++ [27880; 37322]%N ++ runes_of_ascii "
+, [""abc"" ] : msg_type ""a\""b"": repeatCount,
+} , }")).
+Eval vm_compute in ("<<<M4328>>>" ++ check (runes_of_ascii "packet Header {
+    @tag(0)
+    repeat string_ zchar,
+    char Z9_ @lengthOf(charz),
+    char[] Packet,
+    // c
+    @lengthOf(stringy)
+    @tag(7)
+    @calculatedFrom(""`tick`"")
+    float32 string_ `" ++ [233]%N ++ runes_of_ascii "`,
+}
+
+MetaData charz {
+    int32 string_,
+}
+
+root packet int {
+    @calculatedFrom(""a	b"")
+    zchar[65535] x_y_z `crlf
+    line`,
+    @leftPad()
+    o `" ++ [28040; 24687; 31867; 22411]%N ++ runes_of_ascii "`,
+    uint8 leftPad @calculatedFrom(""" ++ [128512]%N ++ runes_of_ascii """),
+    stringy len `it's`,
+}")).
+Eval vm_compute in ("<<<M753>>>" ++ check (runes_of_ascii "MetaData // " ++ [128512]%N ++ runes_of_ascii " emoji
+MetaDataX
+    { }
+    options { } options { Pad =
+42;
+    //x
+    }
+    // trailing space 
+    packet calculatedFrom {
+repeat o
+{ // trailing space 
+o  { zchar[ // 50% %s
+007 ] x
+`100% of %d`,
+    } , } , }
+root packet uint8x{
+@calculatedFrom( ""a\\""
+    //
+    )
+// `tick` ""quote"" 'q'
+// trailing space 
+uint16	pack@calculatedFrom(
+    //x
+    ""\n""
+    // trailing space 
+    ),
+} // c")).
+Eval vm_compute in ("<<<M775>>>" ++ check (runes_of_ascii "// " ++ [27880; 37322]%N ++ runes_of_ascii "
+root packet u8x
+    { @rightPad(  '0' )
+// a // b
+// `tick` ""quote"" 'q'
+repeat char[]
+Z9_ // c
+, falsey
+string_ `{ , }`// @lengthOf(
+,match
+    rootA as x_y_z {""" ++ [233]%N ++ runes_of_ascii "t" ++ [233]%N ++ runes_of_ascii """: charz ,
+""" ++ [28040; 24687]%N ++ runes_of_ascii """ :len 0
+: As ,
+42// trailing space 
+:
+// 50% %s
+// c
+packetx
+, } , } packet  int
+{
+    repeat	uint32
+    body , @calculatedFrom(
+""abc""
+) //
+@lengthOf(roots ) @lengthOf( u
+    )char[] Packet `it's`  , }
+
+")).
+Eval vm_compute in ("<<<M901>>>" ++ check (runes_of_ascii "options
+    {} packet
+    Pad { repeat
+    //	t
+    packetx rootA `" ++ [233]%N ++ runes_of_ascii "` , char[ 255 ] asx `u8 x,` , }
+packet f32a {/// triple
+repeat len
+, //x
+match calculatedFrom  as  u128{
+// " ++ [128512]%N ++ runes_of_ascii " emoji
+// " ++ [128512]%N ++ runes_of_ascii " emoji
+0123456789:crc ,	[ 0 , 10 ,
+""" ++ [128512]%N ++ runes_of_ascii """ , 65535 ,
+// 50% %s
+//
+7 , ""it's""
+, 0123456789
+]
+: i64_, 0123456789 : msg_type // " ++ [27880; 37322]%N ++ runes_of_ascii "
+,
+    } , } options { Z9_ =string ;
+matchKey =
+    ""packet"" }")).
+Eval vm_compute in ("<<<M4087>>>" ++ check (runes_of_ascii "packet u8x {
+    float32 roots `u8 x,`,
+    repeat float32 crc `" ++ [28040; 24687; 31867; 22411]%N ++ runes_of_ascii "`,
+    u32 pack @lengthOf(f32a) `100% of %d`,// " ++ [128512]%N ++ runes_of_ascii " emoji
+    match u128 as _x {
+        [65535] : MetaDataX,
+        //x
+    },
+}
+
+packet x_y_z {
+    @rightPad('\x00')
+    i64 roots,
+    @calculatedFrom(""packet"")
+    match o as trueish {
+        [1, 0123456789] : u8x,
+        //	t
+    },
+}")).
+Eval vm_compute in ("<<<M865>>>" ++ check (runes_of_ascii "MetaData stringy{ char[	3 ]
+T
+    ,
+char[
+255
+    ] Logon ,zchar[ 007 ]
+packetx  ,	i8	pack`` , // 50% %s
+} // 50% %s
+packet// trailing space 
+Logon { match u
+    // `tick` ""quote"" 'q'
+    as
+roots {
+[""// no comment"" , ""it's"" ]:
+    lengthOf ,}
+, uint64
+u128 @calculatedFrom( // a // b
+""\" ++ [233]%N ++ runes_of_ascii """
+) , string metadata `say ""hi""` ,	} /// triple")).
+Eval vm_compute in ("<<<M38>>>" ++ check (runes_of_ascii "packet leftPad { @leftPad ( ' ')
+    // a // b
+    @calculatedFrom(
+""abc"" )  @rightPad ('0'  )  repeat uint64
+// `tick` ""quote"" 'q'
+// @lengthOf(
+x ,} // " ++ [27880; 37322]%N ++ runes_of_ascii "
+packet x_y_z { int16 // @lengthOf(
+crc @lengthOf( f32a
+) `
+`,
+    @lengthOf(	a1
+) char[ 0123456789 ] float `// not a comment` , int32 T @calculatedFrom( ""\" ++ [233]%N ++ runes_of_ascii """	) , }
+")).
+Eval vm_compute in ("<<<M199>>>" ++ check (runes_of_ascii "MetaData
+x {
+_x Z9_
+`u8 x,` ,
+Z9_ matchKey,
+    u128
+    // packet A { u8 x, }
+    roots, lengthOf matchKey
+    , char[3 // @lengthOf(
+] packetx `100% of %d`
+, char[
+    7 ]
+    // c
+    options1 `doc`  ,// 50% %s
+}
+options
+{ leftPad=' '} packet roots {float32 T
+    @lengthOf( int  )
+    `" ++ [233]%N ++ runes_of_ascii "` ,
+}packet
+rootA { }")).
+Eval vm_compute in ("<<<M3755>>>" ++ check (runes_of_ascii "  // 50% %s
+	packet
+
+    a1 {
+	zchar[ 
+	// a // b
+    // 50%@x %s
+	  007
+	]
+
+T`it's`, 
+@rightPad
+// a // b
+    	(
+
+'\x00' )
+
+o repeatCount
+	,
+}	packet  Logon
+
+    {
+    } packet
+
+Logon  //x
+{ 
+repeat  // " ++ [128512]%N ++ runes_of_ascii " emoji
+  uint16
+	u128 
+
+//
+	`a\`
+,
+    falsey
+
+@calculatedFrom(""packet"" )	,
+
+    }")).
+Eval vm_compute in ("<<<M1025>>>" ++ check (runes_of_ascii "packet uint8x
+{
+    @leftPad ('\x00' ) i32 x , @lengthOf( A
+) //	t
+f32a @lengthOf( // `tick` ""quote"" 'q'
+u
+)
+, match
+calculatedFrom // @lengthOf(
+as
+// a // b
+// c
+pack{ 3 : i8i8, } , char[] options1	@lengthOf( u128 )
+    ,repeat char asx `doc`	, float32	pack @lengthOf(o  )
+    ``,
+}")).
+Eval vm_compute in ("<<<M1400>>>" ++ check (runes_of_ascii "packet
+Header {
+} root
+// " ++ [27880; 37322]%N ++ runes_of_ascii "
+/// triple
+packet BodyLength {	As {a1 { char[ 65535 ]crc `two words`
+    , msg_type	, }	, }  ,repeat Z9_/// triple
+{T ,	pack
+,
+repeat tag // " ++ [27880; 37322]%N ++ runes_of_ascii "
+A
+    , int64 // `tick` ""quote"" 'q'
+f32a
+`u8 x,`, }
+, } packet
+    packetx// a // b
+{ }
+/// triple
+")).
+Eval vm_compute in ("<<<M4083>>>" ++ check (runes_of_ascii "packet body {
+    roots @lengthOf(stringy) `" ++ [28040; 24687; 31867; 22411]%N ++ runes_of_ascii "`,
+    @leftPad(' ')
+    @rightPad(' ')
+    @leftPad()
+    a1 @lengthOf(u),
+    match x as x_y_z {
+        [
+            255, ""packet"", 007, 10, """ ++ [233]%N ++ runes_of_ascii "t" ++ [233]%N ++ runes_of_ascii """,
+            3, ""it's""
+        ] : leftPad,
+    },
+    zchar[1] i64_,
+}")).
+Eval vm_compute in ("<<<M298>>>" ++ check (runes_of_ascii "options	{ zchar//
+=
+false  i64_= ' ' ; x = //
+true ; Z9_	= zchar[
+10 ] ;msg_type = i64 }  root packet
+// `tick` ""quote"" 'q'
+// @lengthOf(
+lengthOf { repeat zchar[ 007]  A /// triple
+,
+// `tick` ""quote"" 'q'
+// `tick` ""quote"" 'q'
+} options {
+options1 =
+0123456789}
+")).
+Eval vm_compute in ("<<<M1695>>>" ++ check (runes_of_ascii "// 50% %s
+packet	a1
+    { zchar[
+// a // b
+// 50% %s
+007]
+T `it's`
+    ,@rightPad
+    // a // b
+    (
+'\x00')
+    o repeatCount , }  packet Logon {  }packet	<Logon //x
+{ repeat // " ++ [128512]%N ++ runes_of_ascii " emoji
+uint16 u128
+    //
+    `a\`,
+falsey
+@calculatedFrom(""packet"" ) ,
+    } 	 ")).
+Eval vm_compute in ("<<<M1633>>>" ++ check (runes_of_ascii "// 50% %s
+packet	a1
+    { zchar[
+// a // b
+// 50% %s
+007]
+T `it's`
+    ,@rightPad
+    // a // b
+    (
+'\x00')
+    o repeatCount , }  packet Logon {  }packet	Logon //x
+repeat { // " ++ [128512]%N ++ runes_of_ascii " emoji
+uint16 u128
+    //
+    `a\`,
+falsey
+@calculatedFrom(""packet"" ) ,
+    } 	 ")).
+Eval vm_compute in ("<<<M3468>>>" ++ check (runes_of_ascii "options {LittleEndian=
+
+true
+;StringPrefixLenType=
+u16 ; ArrayPrefixLenType =
+u8 ;
+}
+packet  Reject {
+
+    repeat  char[ 1
+
+]price,repeat
+    InFlags60 {  u8
+	pad0 ,
+    } ,
+u8
+Qty, 
+} root
+
+packet
+	Heartbeat
+    {  repeat 
+Reject
+, repeat string
+sym
+, 
+}")).
+Eval vm_compute in ("<<<M1531>>>" ++ check (runes_of_ascii "// 50% %s
+packet	a1
+    { 
+// a // b
+// 50% %s
+007]
+T `it's`
+    ,@rightPad
+    // a // b
+    (
+'\x00')
+    o repeatCount , }  packet Logon {  }packet	Logon //x
+{ repeat // " ++ [128512]%N ++ runes_of_ascii " emoji
+uint16 u128
+    //
+    `a\`,
+falsey
+@calculatedFrom(""packet"" ) ,
+    } 	 ")).
+Eval vm_compute in ("<<<M1370>>>" ++ check (runes_of_ascii "options
+{}
+packet
+    calculatedFrom
+    {
+@lengthOf(
+trueish // " ++ [128512]%N ++ runes_of_ascii " emoji
+)  @lengthOf(
+    // a // b
+    asx )
+@rightPad () char stringy @lengthOf( trueish
+)
+, } MetaData packetx{ // " ++ [27880; 37322]%N ++ runes_of_ascii "
+f32 Pad `" ++ [28040; 24687; 31867; 22411]%N ++ runes_of_ascii "`
+, int64 msg_type // 50% %s
+, int32 matchKey
+, }")).
+Eval vm_compute in ("<<<M4307>>>" ++ check (runes_of_ascii "
+options{
+
+FixedStringPadChar
+    = '0' ;
+    } 
+packet
+
+Q { 
+zchar[
+4 
+]
+z
+,
+
+    @rightPad
+	( '\x00'
+) 
+char[ 3  ]
+
+n
+	,  char[ 5 ]d
+
+,
+
+    } root
+
+    packet
+    R
+
+    { 
+Q ,zchar[
+8 ]
+top
+,repeat
+	zchar[	2
+
+] 
+zs
+    ,
+}
+")).
+Eval vm_compute in ("<<<M3538>>>" ++ check (runes_of_ascii "root packet zchar {
+    repeat lengthOf crc,
+    trueish @lengthOf(crc),
+    @rightPad()
+    @tag(0)
+    char[7] tag,
+}
+
+options {
+    leftPad = ""abc""
+    Z9_ = true;
+    Z9_ = '\x00'
+    repeatCount = true
+    MetaDataX = ""it's"";
+}")).
+Eval vm_compute in ("<<<M62>>>" ++ check (runes_of_ascii "
+MetaData trueish { len packetx
+`" ++ [28040; 24687; 31867; 22411]%N ++ runes_of_ascii "` , lengthOf len
+// a // b
+// trailing space 
+,zchar[
+7
+    ]	T
+`{ , }` , string_ // packet A { u8 x, }
+f32a , len Z9_
+`` , f64 options1 ,}	options
+    {	u8x=
+    string// 50% %s
+;}")).
+Eval vm_compute in ("<<<M1238>>>" ++ check (runes_of_ascii "options{x =
+    3;  } packet
+//x
+// @lengthOf(
+T{ a1
+    roots , }options
+// @lengthOf(
+//
+{ } options { } MetaData
+a1 // a // b
+{ uint64 int`two words` /// triple
+, i32  options1	, string MetaDataX
+    ,
+    }
+")).
+Eval vm_compute in ("<<<M1023>>>" ++ check (runes_of_ascii "packet	o
+{ chars { u32 T @lengthOf(
+msg_type
+    )
+    , match Pad as i8i8 { [ ""1""
+] :	a1 ,
+    0: A ,//	t
+007
+: // @lengthOf(
+roots,
+42 : _x , 42
+    : body ,
+} , asx	`u8 x,` , }	,
+    // " ++ [128512]%N ++ runes_of_ascii " emoji
+    }")).
+Eval vm_compute in ("<<<M3764>>>" ++ check (runes_of_ascii "packet Header {
+    u128 @calculatedFrom(""""),
+    @rightPad()
+    // a // b
+    zchar charz,
+}
+
+packet packetx {
+    @calculatedFrom(""{,}"")
+    string asx,
+    f32 trueish @lengthOf(trueish),
+}")).
+Eval vm_compute in ("<<<M1284>>>" ++ check (runes_of_ascii "packet stringy { } // c
+MetaData rootA
+{ zchar[
+42 ]	rootA
+`it's`  , Logon i64_  ,
+char[] repeatCount
+`two words`	,
+    //
+    int64 int
+, float64 tag `line1
+line2` , f32 Foo `" ++ [233]%N ++ runes_of_ascii "` , }
+")).
+Eval vm_compute in ("<<<M1223>>>" ++ check (runes_of_ascii "//	t
+options{ MetaDataX = true ; // `tick` ""quote"" 'q'
+Foo =
+    ' '} options {
+tag=""{,}"" // " ++ [128512]%N ++ runes_of_ascii " emoji
+As =
+    char[ //	t
+7 ]	; asx
+= ' ' int =
+    '\x00'
+    ;}	options { }
+")).
+Eval vm_compute in ("<<<M100>>>" ++ check (runes_of_ascii "packet
+_x  { @calculatedFrom( ""a\""b""
+    //	t
+    )
+// a // b
+/// triple
+@rightPad (// " ++ [27880; 37322]%N ++ runes_of_ascii "
+)
+    asx
+/// triple
+//x
+{ char[ 7
+    //	t
+    ]//
+As // " ++ [128512]%N ++ runes_of_ascii " emoji
+`` , } , }")).
+Eval vm_compute in ("<<<M152>>>" ++ check (runes_of_ascii "// " ++ [128512]%N ++ runes_of_ascii " emoji
+packet tag { @lengthOf( matchKey //	t
+)	zchar[
+    7
+    ] i8i8 ,@rightPad
+( //
+'0'	)
+    // " ++ [128512]%N ++ runes_of_ascii " emoji
+    int64//x
+i8i8
+,
+    zchar[	255 ] float ,
+}
+")).
+Eval vm_compute in ("<<<M4445>>>" ++ check (runes_of_ascii "packet A {
+    Inner {
+        match k as n {
+            [
+                1, 22, 007, 4, 5,
+                66, 7
+            ] : B,
+        },
+    },
+}")).
+Eval vm_compute in ("<<<M2096>>>" ++ check (runes_of_ascii "MetaData BodyLength
+{ int8 Foo
+, string
+    MetaDataX , float zchar zchar ,pack options1
+,asx string_, }
+packet u8x {Foo@lengthOf(charz )
+`" ++ [28040; 24687; 31867; 22411]%N ++ runes_of_ascii "`,  }
+")).
+Eval vm_compute in ("<<<M2071>>>" ++ check (runes_of_ascii "MetaData BodyLength
+{ int8 Foo
+, , string
+    MetaDataX , float zchar ,pack options1
+,asx string_, }
+packet u8x {Foo@lengthOf(charz )
+`" ++ [28040; 24687; 31867; 22411]%N ++ runes_of_ascii "`,  }
+")).
+Eval vm_compute in ("<<<M2162>>>" ++ check (runes_of_ascii "MetaData BodyLength
+{ int8 Foo
+, string
+    MetaDataX , float zchar ,pack options1
+,asx string_, }
+packet u8x {Foo charz@lengthOf( )
+`" ++ [28040; 24687; 31867; 22411]%N ++ runes_of_ascii "`,  }
+")).
+Eval vm_compute in ("<<<M2117>>>" ++ check (runes_of_ascii "MetaData BodyLength
+{ int8 Foo
+, string
+    MetaDataX , float zchar ,pack options1
+asx, string_, }
+packet u8x {Foo@lengthOf(charz )
+`" ++ [28040; 24687; 31867; 22411]%N ++ runes_of_ascii "`,  }
+")).
+Eval vm_compute in ("<<<M2135>>>" ++ check (runes_of_ascii "MetaData BodyLength
+{ int8 Foo
+, string
+    MetaDataX , float zchar ,pack options1
+,asx string_, 
+packet u8x {Foo@lengthOf(charz )
+`" ++ [28040; 24687; 31867; 22411]%N ++ runes_of_ascii "`,  }
+")).
+Eval vm_compute in ("<<<M1964>>>" ++ check (runes_of_ascii "
+packet leftPad {
+@leftPad( '0')
+@leftPad
+i64_ `100% of %d` ,repeat// 50% %s
+i8 chars
+    ,
+} MetaData
+    f32a
+{ // packet A { u8 x, }
+}")).
+Eval vm_compute in ("<<<M2299>>>" ++ check (runes_of_ascii "options
+    {
+x_y_z// " ++ [27880; 37322]%N ++ runes_of_ascii "
+= 10 ; }
+packet body {
+    @calculatedFrom(
+// trailing space 
+// " ++ [27880; 37322]%N ++ runes_of_ascii "
+""1""
+)	match T as Foo
+    {
+255 255 :T , }
+,}")).
+Eval vm_compute in ("<<<M1957>>>" ++ check (runes_of_ascii "
+packet leftPad {
+@leftPad( '0') )
+u32
+i64_ `100% of %d` ,repeat// 50% %s
+i8 chars
+    ,
+} MetaData
+    f32a
+{ // packet A { u8 x, }
+}")).
+Eval vm_compute in ("<<<M2329>>>" ++ check (runes_of_ascii "options
+    {
+x_y_z// " ++ [27880; 37322]%N ++ runes_of_ascii "
+= 10 ; }
+packet body {
+    @calculatedFrom(
+// trailing space 
+// " ++ [27880; 37322]%N ++ runes_of_ascii "
+""1""
+)	match T as Foo
+    {
+255 :T , }
+,} }")).
+Eval vm_compute in ("<<<M1933>>>" ++ check (runes_of_ascii "
+packet { leftPad
+@leftPad( '0')
+u32
+i64_ `100% of %d` ,repeat// 50% %s
+i8 chars
+    ,
+} MetaData
+    f32a
+{ // packet A { u8 x, }
+}")).
+Eval vm_compute in ("<<<M2240>>>" ++ check (runes_of_ascii "options
+    {
+x_y_z// " ++ [27880; 37322]%N ++ runes_of_ascii "
+= 10 ; packet
+} body {
+    @calculatedFrom(
+// trailing space 
+// " ++ [27880; 37322]%N ++ runes_of_ascii "
+""1""
+)	match T as Foo
+    {
+255 :T , }
+,}")).
+Eval vm_compute in ("<<<M2001>>>" ++ check (runes_of_ascii "
+packet leftPad {
+@leftPad( '0')
+u32
+i64_ `100% of %d` ,repeat// 50% %s
+i8 chars
+    ,
+ MetaData
+    f32a
+{ // packet A { u8 x, }
+}")).
+Eval vm_compute in ("<<<M1605>>>" ++ check (runes_of_ascii "// 50% %s
+packet	a1
+    { zchar[
+// a // b
+// 50% %s
+007]
+T `it's`
+    ,@rightPad
+    // a // b
+    (
+'\x00')
+    o repeatCount , }")).
+Eval vm_compute in ("<<<M2218>>>" ++ check (runes_of_ascii "options
+    {
+// " ++ [27880; 37322]%N ++ runes_of_ascii "
+= 10 ; }
+packet body {
+    @calculatedFrom(
+// trailing space 
+// " ++ [27880; 37322]%N ++ runes_of_ascii "
+""1""
+)	match T as Foo
+    {
+255 :T , }
+,}")).
+Eval vm_compute in ("<<<M2009>>>" ++ check (runes_of_ascii "
+packet leftPad {
+@leftPad( '0')
+u32
+i64_ `100% of %d` ,repeat// 50% %s
+i8 chars
+    ,
+} ,
+    f32a
+{ // packet A { u8 x, }
+}")).
+Eval vm_compute in ("<<<M902>>>" ++ check (runes_of_ascii "options {
+    rootA
+    =/// triple
+float32
+; u8x//
+= true ;Z9_=
+// a // b
+// trailing space 
+'0' // a // b
+; } // @lengthOf(")).
+Eval vm_compute in ("<<<M3373>>>" ++ check (runes_of_ascii "packet B {
+    u8 a,
+}
+root packet P {
+    u8 K,
+    u64 L @lengthOf(Body),
+    match K as Body {
+        1 : B,
+    },
+}
+")).
+Eval vm_compute in ("<<<M3972>>>" ++ check (runes_of_ascii "  packet A
+{ match k
+    as
+
+n  {
+[
+
+    1
+,
+""bb""  ,
+007
+,""d"",5
+	,  ""f""
+    ,
+7 
+]
+
+    : B , 2
+
+:C	}
+    , }
+")).
+Eval vm_compute in ("<<<M1916>>>" ++ check (runes_of_ascii "packet o {
+    roots `it's`
+// trailing space 
+//x
+, char[ 42
+    ]  @ A, // " ++ [27880; 37322]%N ++ runes_of_ascii "
+f64
+repeatCount
+    `crlf
+line`
+,}")).
+Eval vm_compute in ("<<<M1831>>>" ++ check (runes_of_ascii "o packet {
+    roots `it's`
+// trailing space 
+//x
+, char[ 42
+    ]  A, // " ++ [27880; 37322]%N ++ runes_of_ascii "
+f64
+repeatCount
+    `crlf
+line`
+,}")).
+Eval vm_compute in ("<<<M1902>>>" ++ check (runes_of_ascii "packet o {
+    roots `it's`
+// trailing space 
+//x
+, char[ 42
+    ]  A, // " ++ [27880; 37322]%N ++ runes_of_ascii "
+f64
+repeatCount
+    `crlf
+line`
+,")).
+Eval vm_compute in ("<<<M2024>>>" ++ check (runes_of_ascii "
+packet leftPad {
+@leftPad( '0')
+u32
+i64_ `100% of %d` ,repeat// 50% %s
+i8 chars
+    ,
+} MetaData
+    f32a
+{")).
+Eval vm_compute in ("<<<M2331>>>" ++ check (runes_of_ascii "options
+    {
+x_y_z// " ++ [27880; 37322]%N ++ runes_of_ascii "
+= 10 ; }
+packet body {
+    @calculatedFrom(
+// trailing space 
+// " ++ [27880; 37322]%N ++ runes_of_ascii "
+""1""
+)	match T ")).
+Eval vm_compute in ("<<<M3075>>>" ++ check (runes_of_ascii "packet A {
+    Inner {
+        u8 x `%%d%!`,
+        Deep {
+            u8 y `%%d%!`,
+        },
+    },
+}")).
+Eval vm_compute in ("<<<M1892>>>" ++ check (runes_of_ascii "packet o {
+    roots `it's`
+// trailing space 
+//x
+, char[ 42
+    ]  A, // " ++ [27880; 37322]%N ++ runes_of_ascii "
+f64
+repeatCount
+    
+,}")).
+Eval vm_compute in ("<<<M3045>>>" ++ check (runes_of_ascii "packet A {
     Inner {
         u8 x `x
 `,
@@ -975,119 +2158,227 @@ Eval vm_compute in ("<<<M945>>>" ++ check (runes_of_ascii "packet A {
         },
     },
 }")).
-Eval vm_compute in ("<<<M461>>>" ++ check (runes_of_ascii "packet
-    // `tick` ""quote"" 'q'
-    crc
-// packet A { u8 x, }
-//	t
+Eval vm_compute in ("<<<M2139>>>" ++ check (runes_of_ascii "MetaData BodyLength
+{ int8 Foo
+, string
+    MetaDataX , float zchar ,pack options1
+,asx string_,")).
+Eval vm_compute in ("<<<M1425>>>" ++ check (runes_of_ascii "packet
+T
+char[ match repeatCount as	calculatedFrom
+{ [65535 ]	: As	,
+} ,}
+// trailing space 
+")).
+Eval vm_compute in ("<<<M730>>>" ++ check (runes_of_ascii "//
+options
 {
-u32 a1 ,
-    // trailing ")).
-Eval vm_compute in ("<<<M1095>>>" ++ check (runes_of_ascii "// top
-root // c0
-packet // c1
-u128 // c2
-{ // c3
-chars // c4
-`it's` // c5
-, // c6
-} // c7
+// @lengthOf(
+// a // b
+i64_ =""a	b""; //x
+BodyLength = ' '
+;lengthOf  = f64 ; }
 ")).
-Eval vm_compute in ("<<<M1186>>>" ++ check (runes_of_ascii "MetaData float { float64 // c
-charz `
-` , } root packet chars { @rightPad ( '0' ) Foo , }")).
-Eval vm_compute in ("<<<M1397>>>" ++ check (runes_of_ascii "packet
-// c
-chars { } packet MetaDataX { @tag( 42 ) i16 string_ , repeat x `say ""hi""` , }")).
-Eval vm_compute in ("<<<M1429>>>" ++ check (runes_of_ascii "packet chars { } packet MetaDataX { @tag( 42 ) i16 string_ , repeat x `say ""hi""` ,
-// c
-}")).
-Eval vm_compute in ("<<<M1127>>>" ++ check (runes_of_ascii "packet metadata
-// c
-{ Logon { A `" ++ [28040; 24687; 31867; 22411]%N ++ runes_of_ascii "` , tag o , } , zchar len `// not a comment` , }")).
-Eval vm_compute in ("<<<M1376>>>" ++ check (runes_of_ascii "packet o { repeat Logon uint8x , } options { asx = zchar[ 3 ] stringy = '\x00' } // c
+Eval vm_compute in ("<<<M1502>>>" ++ check (runes_of_ascii "packet
+T
+{ match repeatCount as	calculatedFrom
+{ [65535 ]	: As	,
+} ,}
+// tra" ++ [0]%N ++ runes_of_ascii "iling space 
 ")).
-Eval vm_compute in ("<<<M1364>>>" ++ check (runes_of_ascii "packet o { repeat Logon uint8x , } options { asx = zchar[ // c
-3 ] stringy = '\x00' }")).
-Eval vm_compute in ("<<<M839>>>" ++ check (runes_of_ascii "packet A {
+Eval vm_compute in ("<<<M1459>>>" ++ check (runes_of_ascii "packet
+T
+{ match repeatCount as	calculatedFrom
+{ [] 65535	: As	,
+} ,}
+// trailing space 
+")).
+Eval vm_compute in ("<<<M1477>>>" ++ check (runes_of_ascii "packet
+T
+{ match repeatCount as	calculatedFrom
+{ [65535 ]	: As	
+} ,}
+// trailing space 
+")).
+Eval vm_compute in ("<<<M1748>>>" ++ check (runes_of_ascii "options{  lengthOf =//x
+i16;
+    BodyLength true 0 ; pack
+= false;
+    A = char[ 3 ] }")).
+Eval vm_compute in ("<<<M1818>>>" ++ check (runes_of_ascii "options{  leng@xthOf =//x
+i16;
+    BodyLength = 0 ; pack
+= false;
+    A = char[ 3 ] }")).
+Eval vm_compute in ("<<<M490>>>" ++ check (runes_of_ascii "
+options {
+options1 =	true ;
+trueish= int64; float = 10 ; matchKey =
+    float64 }
+")).
+Eval vm_compute in ("<<<M4148>>>" ++ check (runes_of_ascii "
+
+  options
+
+{ charz
+
+= // " ++ [128512]%N ++ runes_of_ascii " emoji
+false ;
+body =
+//	t
+//x
+	'\x00';	int
+	=  '0'	} ")).
+Eval vm_compute in ("<<<M2119>>>" ++ check (runes_of_ascii "MetaData BodyLength
+{ int8 Foo
+, string
+    MetaDataX , float zchar ,pack options1")).
+Eval vm_compute in ("<<<M3281>>>" ++ check (runes_of_ascii "MetaData Foo { zchar[ 0 ] matchKey , } options { lengthOf = i32 u = 00 ; } // c
+")).
+Eval vm_compute in ("<<<M3254>>>" ++ check (runes_of_ascii "MetaData Foo { zchar[ 0
+// c
+] matchKey , } options { lengthOf = i32 u = 00 ; }")).
+Eval vm_compute in ("<<<M1514>>>" ++ check (runes_of_ascii "packet
+T
+{ match repeatCount as	x" ++ [178]%N ++ runes_of_ascii "
+{ [65535 ]	: As	,
+} ,}
+// trailing space 
+")).
+Eval vm_compute in ("<<<M4144>>>" ++ check (runes_of_ascii "packet _x {
+    int8 Packet,
+}
+
+options {
+}
+
+options {
+    options1 = ' ';
+}")).
+Eval vm_compute in ("<<<M3535>>>" ++ check (runes_of_ascii "packet BodyLength {
+    repeat repeatCount,
+    @tag(0)
+    trueish _x,
+}")).
+Eval vm_compute in ("<<<M3564>>>" ++ check (runes_of_ascii "packet u8x{	}
+    MetaData
+crc{
+char[  // c
+
+4294967296 ]
+Foo
+	,
+
+}
+")).
+Eval vm_compute in ("<<<M9>>>" ++ check (runes_of_ascii "MetaData len{
+    zchar
+    // " ++ [128512]%N ++ runes_of_ascii " emoji
+    Header `line1
+line2` ,	}
+")).
+Eval vm_compute in ("<<<M2834>>>" ++ check (runes_of_ascii "match match match zchar[ ] 10 repeat @calculatedFrom( float64 char")).
+Eval vm_compute in ("<<<M2876>>>" ++ check (runes_of_ascii "packet A {
   match k as n {
-    [1, ""bb"", 007, ""d"", 5, ""f"", 7] : B
+    [""a"", ""bb""] : B
     2 : C
   },
 }")).
-Eval vm_compute in ("<<<M1325>>>" ++ check (runes_of_ascii "MetaData body { i64 pack `it's` , } packet stringy { // c
-int16 calculatedFrom , }")).
-Eval vm_compute in ("<<<M834>>>" ++ check (runes_of_ascii "packet A {
-  match k as n {
-    [1, 22, 007, 4, 5, 66, 7] : B,
-    2 : C
-  },
+Eval vm_compute in ("<<<M137>>>" ++ check (runes_of_ascii "// @lengthOf(
+packet repeatCount {	} MetaData o {asx crc , }
+")).
+Eval vm_compute in ("<<<M3310>>>" ++ check (runes_of_ascii "packet u8x { } MetaData crc { char[ 4294967296 ]
+// c
+Foo , }")).
+Eval vm_compute in ("<<<M3207>>>" ++ check (runes_of_ascii "packet A { @leftPad() char[4] x, @rightPad( ) zchar[2] y, }")).
+Eval vm_compute in ("<<<M3067>>>" ++ check (runes_of_ascii "packet A {
+    B b `%`,
+    B `%`,
+    repeat B bs `%`,
 }")).
-Eval vm_compute in ("<<<M2086>>>" ++ check (runes_of_ascii "packet A {
-    match k as n {
-        [1, 22] : B,
-        2 : C,
-    },
+Eval vm_compute in ("<<<M3186>>>" ++ check (runes_of_ascii "packet A { match k as n { 1 : B // a // b 2 : C }, }")).
+Eval vm_compute in ("<<<M3552>>>" ++ check (runes_of_ascii "root packet leftPad {
+    u64 Z9_ `doc`,// 50% %s
 }")).
-Eval vm_compute in ("<<<M161>>>" ++ check (runes_of_ascii "// trailing space 
-packet
-Header { // c
-repeat  char[] MetaDataX , }")).
-Eval vm_compute in ("<<<M775>>>" ++ check (runes_of_ascii "packet A {
-  match k as n {
-    [""a"", ""bb""] : B,
-    2 : C
-  },
-}")).
-Eval vm_compute in ("<<<M144>>>" ++ check (runes_of_ascii "MetaData Pad{	x_y_z
-    // packet A { u8 x, }
-    T ,
+Eval vm_compute in ("<<<M1340>>>" ++ check (runes_of_ascii "// " ++ [27880; 37322]%N ++ runes_of_ascii "
+options { As
+    = false x =
+false;
+}
+//x
+")).
+Eval vm_compute in ("<<<M323>>>" ++ check (runes_of_ascii "//	t
+options
+    { // 50% %s
+body = 3
     }
 ")).
-Eval vm_compute in ("<<<M1285>>>" ++ check (runes_of_ascii "packet x { @rightPad (
-// c
-) repeat roots Logon `doc` , }")).
-Eval vm_compute in ("<<<M1647>>>" ++ check (runes_of_ascii "
-root  packet
-
-A
-
-    { u8
-
-    x
-`a
-
-b`
-,
+Eval vm_compute in ("<<<M1749>>>" ++ check (runes_of_ascii "options{  lengthOf =//x
+i16;
+    BodyLength")).
+Eval vm_compute in ("<<<M2378>>>" ++ check (runes_of_ascii "MetaData
+Foo {Header //
+pack float32	} 	 ")).
+Eval vm_compute in ("<<<M4016>>>" ++ check (runes_of_ascii "options {
+	a =
+	""x\
+y""	;
+b= ""x\
+y""
 	}
 
 ")).
-Eval vm_compute in ("<<<M1692>>>" ++ check (runes_of_ascii "root packet P {
-    repeat char cs,
-    u8 x,
+Eval vm_compute in ("<<<M63>>>" ++ check (runes_of_ascii "root packet
+f32a {
+    // a // b
+    }")).
+Eval vm_compute in ("<<<M2398>>>" ++ check (runes_of_ascii "MetaData
+Foo {Header //
+pack ,	} 	 " ++ [65279]%N ++ runes_of_ascii " ")).
+Eval vm_compute in ("<<<M3059>>>" ++ check (runes_of_ascii "root packet A {
+    u8 x `tab
+	x`,
 }")).
-Eval vm_compute in ("<<<M2015>>>" ++ check (runes_of_ascii "MetaData float {
-    f64 u8x `
-        `,
+Eval vm_compute in ("<<<M1061>>>" ++ check (runes_of_ascii "options { } root packet _x
+    { }")).
+Eval vm_compute in ("<<<M2779>>>" ++ check (runes_of_ascii "float32 float64 char } int64 root")).
+Eval vm_compute in ("<<<M4162>>>" ++ check (runes_of_ascii "root packet T {
+    // " ++ [128512]%N ++ runes_of_ascii " emoji
 }")).
-Eval vm_compute in ("<<<M1113>>>" ++ check (runes_of_ascii "root packet u128 { chars `it's` ,
-// c
-}")).
-Eval vm_compute in ("<<<M244>>>" ++ check (runes_of_ascii "
-packet/// triple
-packetx {
-} // " ++ [27880; 37322]%N)).
-Eval vm_compute in ("<<<M760>>>" ++ check ([17; 65533; 65533]%N ++ runes_of_ascii "Ab" ++ [65533]%N ++ runes_of_ascii ";A" ++ [65533; 65533; 65533; 65533]%N ++ runes_of_ascii "B" ++ [6; 65533; 1016; 65533]%N ++ runes_of_ascii "L" ++ [65533; 65533]%N ++ runes_of_ascii "33" ++ [65533; 65533]%N ++ runes_of_ascii "I+" ++ [65533; 65533]%N ++ runes_of_ascii "&" ++ [65533]%N ++ runes_of_ascii "P")).
-Eval vm_compute in ("<<<M1072>>>" ++ check (runes_of_ascii "MetaData M {
+Eval vm_compute in ("<<<M2797>>>" ++ check (runes_of_ascii "RHnH6 /S[:7D4+W#FN9|rid}KtIp7H")).
+Eval vm_compute in ("<<<M3193>>>" ++ check (runes_of_ascii "MetaData M {
 }// c
 options {}")).
-Eval vm_compute in ("<<<M1167>>>" ++ check (runes_of_ascii "root packet // c
-pack { }")).
-Eval vm_compute in ("<<<M507>>>" ++ check (runes_of_ascii "root packet tag { }")).
-Eval vm_compute in ("<<<M1007>>>" ++ check (runes_of_ascii "// c" ++ [8232]%N ++ runes_of_ascii "
-packet A {
+Eval vm_compute in ("<<<M3348>>>" ++ check (runes_of_ascii "options { u8x = false // c
 }")).
-Eval vm_compute in ("<<<M1004>>>" ++ check (runes_of_ascii "packet A {
-}// c" ++ [8232]%N)).
-Eval vm_compute in ("<<<M745>>>" ++ check (runes_of_ascii "cJ<op-O(/i*")).
-Eval vm_compute in ("<<<M1010>>>" ++ check (runes_of_ascii "// c" ++ [8233]%N)).
+Eval vm_compute in ("<<<M2069>>>" ++ check (runes_of_ascii "MetaData BodyLength
+{ int8")).
+Eval vm_compute in ("<<<M4180>>>" ++ check (runes_of_ascii "// c" ++ [160]%N ++ runes_of_ascii "
+packet
+	A
+    {}
+")).
+Eval vm_compute in ("<<<M2702>>>" ++ check (runes_of_ascii "q" ++ [65533; 65533]%N ++ runes_of_ascii "J" ++ [65533]%N ++ runes_of_ascii "\" ++ [248; 65533; 17; 65533; 65533; 65533; 26; 1285; 28]%N ++ runes_of_ascii "~" ++ [14]%N ++ runes_of_ascii "Q" ++ [65533]%N ++ runes_of_ascii "*" ++ [65533]%N ++ runes_of_ascii "}" ++ [65533]%N)).
+Eval vm_compute in ("<<<M1346>>>" ++ check (runes_of_ascii "// a // b
+ // " ++ [128512]%N ++ runes_of_ascii " emoji")).
+Eval vm_compute in ("<<<M4278>>>" ++ check (runes_of_ascii "root packet i8i8 {
+}")).
+Eval vm_compute in ("<<<M456>>>" ++ check (runes_of_ascii "packet metadata{}
+")).
+Eval vm_compute in ("<<<M3142>>>" ++ check (runes_of_ascii "packet A {
+}
+// c" ++ [8287]%N)).
+Eval vm_compute in ("<<<M2666>>>" ++ check (runes_of_ascii "options { a = ; }")).
+Eval vm_compute in ("<<<M2384>>>" ++ check (runes_of_ascii "MetaData
+Foo {He")).
+Eval vm_compute in ("<<<M2369>>>" ++ check (runes_of_ascii "MetaData
+Foo {")).
+Eval vm_compute in ("<<<M2660>>>" ++ check (runes_of_ascii "MetaData { }")).
+Eval vm_compute in ("<<<M2488>>>" ++ check (runes_of_ascii "@rightPad")).
+Eval vm_compute in ("<<<M2456>>>" ++ check (runes_of_ascii "trueish")).
+Eval vm_compute in ("<<<M2771>>>" ++ check (runes_of_ascii "( true")).
+Eval vm_compute in ("<<<M2860>>>" ++ check (runes_of_ascii "KIM@.")).
+Eval vm_compute in ("<<<M2530>>>" ++ check (runes_of_ascii "`
+`")).
+Eval vm_compute in ("<<<M2536>>>" ++ check (runes_of_ascii "1 2")).
+Eval vm_compute in ("<<<M2544>>>" ++ check (runes_of_ascii "_1")).
